@@ -2,12 +2,13 @@
 from __future__ import annotations
 
 import ast
+import re
+from fractions import Fraction
 
-from ..cfg import CFG
-from ..loops import dotted, find_env_loop
-from ..nf import NF, Scope, Poly, parse_expr
-from ..repo import Repo, loc, short, AnalysisError, positional_params, param_names
-from ..resolve import Resolver
+from ..loops import dotted, find_env_loop, strip_wrappers
+from ..nf import NF, Scope, Poly, parse_expr, STRIP
+from ..repo import Repo, loc, short, AnalysisError, param_names
+from ..sem import same_ingredients, arg_of
 
 EXPLANATION = (
     "Sibling agreement: within each stochastic head the distribution parameters used by sample, log_probability and entropy (and "
@@ -31,10 +32,77 @@ RULES = {
 
 PH = "rl_blox.blox.function_approximator.policy_head."
 STD_SPEC = "jnp.exp(jnp.clip(0.5 * LV, -20.0, 2.0))"
+TANH_MEAN_SPEC = "nnx.tanh(self.net(OBS)[0]) * self.action_scale.value + self.action_bias.value"      # broadcast_to(x, <shape of the other operand>) is read as x (see run)
+TFP = "tensorflow_probability."
+TFP_PARAMS = {"Normal": ["loc", "scale"], "MultivariateNormalDiag": ["loc", "scale_diag"], "Categorical": ["logits", "probs"]}      # positional parameters of the tfp constructors
+TFP_OPS = {"sample": ["sample_shape", "seed"], "log_prob": ["value"], "prob": ["value"], "entropy": [], "mean": [], "mode": [], "stddev": [], "variance": [], "cdf": ["value"], "log_cdf": ["value"]}
+RANDOM_DRAWS = ("uniform", "normal", "randint", "bernoulli", "truncated_normal", "exponential", "laplace", "integers", "random", "rand", "choice", "gumbel", "beta")
+_TMP = re.compile(r"__i\d+\b")
+
+
+def _role(name):
+    return Poly.atom(name, {name}, {name})
+
+
+OBS, KEY, ACTION = _role("OBS"), _role("KEY"), _role("ACTION")
+
+
+def _unread(p) -> bool:
+    """The normal form contains something the engine could not read: a merge of definitions, an opaque expression, an unresolved temporary of the helper expander."""
+    t = p if isinstance(p, str) else p.canon()
+    return "φ(" in t or "⟦" in t or "λ[" in t or bool(_TMP.search(t))
+
+
+def _differs(site, what, got, want, extras=()):
+    """Verdict for a value that is not the documented one.  It is a violation (returns False) only with positive evidence: the value was read
+    completely and is built from the documented ingredients, so the two normal forms are different functions of the same quantities.  Anything else
+    (unread parts, other ingredients: possibly another spelling of the same value) is undecided."""
+    if got is None or _unread(got) or not same_ingredients(got, want, extras):
+        raise AnalysisError(f"{site}: {what} `{got.canon()[:90] if got is not None else None}` is not read back to the documented `{want.canon()[:60]}` (unrecognised form)")
+    return False
+
+
+def _atoms(nf, p, skip=None, seen=None):
+    """(atom, meta) for every atom of the value, transitively through the arguments of calls / projections (``skip(atom, meta)``: do not look inside)."""
+    seen = set() if seen is None else seen
+    if p.elems is not None:
+        for e in p.elems:
+            yield from _atoms(nf, e, skip, seen)
+        return
+    for a in sorted(p.atoms()):
+        if a in seen:
+            continue
+        seen.add(a)
+        m = nf.meta.get(a, {})
+        yield a, m
+        if skip is not None and skip(a, m):
+            continue
+        for x in list(m.get("args", [])) + list(m.get("kws", {}).values()):
+            yield from _atoms(nf, x, skip, seen)
+
+
+def _fn(m) -> str:
+    return m.get("fn", "").rsplit(".", 1)[-1]
+
+
+def _deref(nf, p):
+    """Positional reads of a record (NamedTuple / dataclass) built in place are its constructor arguments: `mean, std = Params(mean=m, std=s)` reads m and s."""
+    if p is None or p.elems is not None:
+        return p
+    mp = {}
+    for a in p.atoms():
+        m = nf.meta.get(a, {})
+        k = re.search(r"\[(\d+)\]$", a)
+        if m.get("fn") == "proj" and len(m.get("args", [])) == 1 and k:
+            mb = nf.meta.get(m["args"][0].single_atom() or "", {})
+            if "record" in mb and int(k.group(1)) < len(mb["args"]):
+                mp[a] = _deref(nf, mb["args"][int(k.group(1))])
+    return p.subst(mp) if mp else p
 
 
 def _method(repo, cq, name):
-    """The method as the class has it: its own, or inherited from a repository base class (a shared base of sibling heads)."""
+    """The method as the class has it: its own, or inherited from a repository base class (a shared base of sibling heads); names inside it are
+    resolved in the module of the class that defines it."""
     m = repo.method(cq, name)
     if m is None:
         raise AnalysisError(f"{cq}.{name} not found (anchor vanished)")
@@ -42,348 +110,775 @@ def _method(repo, cq, name):
     return m[1]
 
 
-def _dist_call(fn):
-    """The tfp distribution construction in a method: (ctor name, kwargs dict of ast, method called on it, its args)."""
-    POS = {"Normal": ["loc", "scale"], "MultivariateNormalDiag": ["loc", "scale_diag"], "Categorical": ["logits", "probs"]}
-    # the distribution object may be held in a local (`pi = dist.Categorical(...); pi.sample(...)`)
-    local_dists = {}
-    for n in ast.walk(fn):
-        if isinstance(n, ast.Assign) and len(n.targets) == 1 and isinstance(n.targets[0], ast.Name) and isinstance(n.value, ast.Call) and (dotted(n.value.func) or "").startswith("dist."):
-            local_dists[n.targets[0].id] = n.value
-    for n in ast.walk(fn):
-        if not (isinstance(n, ast.Call) and isinstance(n.func, ast.Attribute)):
+def _own(fn, kinds):
+    """Nodes of the given kinds in the body of ``fn`` itself (not in nested functions / lambdas / classes)."""
+    out, todo = [], list(fn.body)
+    while todo:
+        n = todo.pop(0)
+        if isinstance(n, (ast.FunctionDef, ast.AsyncFunctionDef, ast.Lambda, ast.ClassDef)):
             continue
-        ctor = None
-        if isinstance(n.func.value, ast.Call) and (dotted(n.func.value.func) or "").startswith("dist."):
-            ctor = n.func.value
-        elif isinstance(n.func.value, ast.Name) and n.func.value.id in local_dists and n.func.attr in ("sample", "log_prob", "entropy", "mode", "mean"):
-            ctor = local_dists[n.func.value.id]
-        if ctor is None:
-            continue
-        name = dotted(ctor.func)[5:]
-        kws = {k.arg: k.value for k in ctor.keywords}
-        for pn, a in zip(POS.get(name, []), ctor.args):     # positional parameters of the tfp constructors
-            kws.setdefault(pn, a)
-        return name, kws, n.func.attr, n
+        if isinstance(n, kinds):
+            out.append(n)
+        todo.extend(ast.iter_child_nodes(n))
+    return out
+
+
+def _returned(nf, fn, sc, site, every=False):
+    """Normal form of the value the function returns (one return statement; ``every``: [(value, statement)] of all of them, each is judged)."""
+    rets = [r for r in _own(fn, ast.Return) if r.value is not None]
+    if not rets or (len(rets) != 1 and not every):
+        raise AnalysisError(f"{site}: {len(rets)} return statements with a value (unrecognised form)")
+    vals = [(nf.poly(r.value, sc, sc.cfg.node_of(r).id), r) for r in rets]
+    return vals if every else vals[0]
+
+
+def _params(fn, n, site):
+    pn = param_names(fn)
+    if len(pn) < n:
+        raise AnalysisError(f"{site}: fewer than {n} parameters (anchor vanished)")
+    return pn
+
+
+def _dist_read(nf, p):
+    """(constructor, {parameter: Poly}, method, {method parameter: Poly}) when the value is the result of a method of a tfp distribution object, however
+    the object reaches the call (inline, through a local, through an expanded helper); None otherwise.  Arguments are bound by the tfp signatures."""
+    a = p.single_atom() if p.elems is None else None
+    m = nf.meta.get(a or "")
+    if not m or "." not in m.get("fn", ""):
+        return None
+    base, _, op = m["fn"].rpartition(".")
+    mb = nf.meta.get(base)
+    if not mb or not mb.get("fn", "").startswith(TFP):
+        return None
+    ctor = _fn(mb)
+    if "**" in mb["kws"] or "**" in m["kws"] or any(x.canon().startswith("*") for x in list(mb["args"]) + list(m["args"])):
+        raise AnalysisError(f"star arguments in `{a[:80]}` (unrecognised form)")
+    if len(mb["args"]) > len(TFP_PARAMS.get(ctor, [])) or len(m["args"]) > len(TFP_OPS.get(op, [])):
+        raise AnalysisError(f"positional arguments of `{ctor}(...).{op}(...)` beyond the recorded tfp signature (unrecognised form)")
+    params = dict(mb["kws"])
+    for n_, v in zip(TFP_PARAMS.get(ctor, []), mb["args"]):
+        params.setdefault(n_, v)
+    oargs = dict(m["kws"])
+    for n_, v in zip(TFP_OPS.get(op, []), m["args"]):
+        oargs.setdefault(n_, v)
+    return ctor, params, op, oargs
+
+
+def _std_triple(nf, p, lv):
+    """exp(s * clip(c * LV, lo, hi)) with s > 0  ->  (s*c, s*lo, s*hi): the same function as exp(clip(s*c*LV, s*lo, s*hi)); None for any other shape."""
+    m = nf.meta.get(p.single_atom() or "", {})
+    if _fn(m) != "exp" or len(m.get("args", [])) != 1 or m.get("kws"):
+        return None
+    q = m["args"][0]
+    if len(q.terms) != 1:
+        return None
+    (mono, s), = q.terms.items()
+    if len(mono) != 1 or mono[0][1] != 1 or s <= 0:
+        return None
+    mc = nf.meta.get(mono[0][0], {})
+    if _fn(mc) != "clip" or len(mc.get("args", [])) != 3 or mc.get("kws"):
+        return None
+    a0, a1, hi = mc["args"]
+    x, lo = (a0, a1) if a1.is_const() else (a1, a0)
+    if not (lo.is_const() and hi.is_const()) or len(x.terms) != 1 or len(lv.terms) != 1:
+        return None
+    (xm, c), = x.terms.items()
+    if xm != next(iter(lv.terms)):
+        return None
+    return (s * c, s * lo.const_value(), s * hi.const_value())
+
+
+def _key_ob(ck, site, got, where):
+    """R3: the draw is determined by the key argument (KEY).  A seed that does not depend on the key at all is the evidence of a violation."""
+    if got is None:
+        raise AnalysisError(f"{site}: no seed / key handed to the random draw (unrecognised form)")
+    ok = got == KEY
+    if not ok and (_unread(got) or "KEY" in got.deps):
+        raise AnalysisError(f"{site}: the seed `{got.canon()[:80]}` is derived from the key argument in a way this rule does not read (unrecognised form)")
+    ck.ob("R3-distribution-call", site, "key-determined", ok, f"seed = {got.canon()[:100]}", "" if ok else "the sample must be determined by the key argument", where)
+
+
+def _action_ob(ck, site, got, extras, detail, where):
+    """R3: the density is evaluated at the action argument (ACTION)."""
+    if got is None:
+        raise AnalysisError(f"{site}: log_prob without a value (unrecognised form)")
+    ok = got == ACTION or _differs(site, "the point the density is evaluated at", got, ACTION, extras)
+    ck.ob("R3-distribution-call", site, "density-of-action", ok, f"log_prob({got.canon()[:100]})", "" if ok else detail, where)
+
+
+def _value_arity(nf, p, arrays, pairs):
+    """Number of values a tuple-unpack of ``p`` yields without iterating an array: length of a tuple / record, 2 for the raw output of the Gaussian
+    network (mean, log_var); 1 (an array: unpacking iterates its batch axis) for the head's own mean / std; None when this cannot be told."""
+    if p.elems is not None:
+        return len(p.elems)
+    m = nf.meta.get(p.single_atom() or "", {})
+    if "record" in m:
+        return len(m["record"])
+    if p in pairs:
+        return 2
+    if p in arrays:
+        return 1
     return None
 
 
-def _return_arity(fn):
-    ar = set()
-    for n in ast.walk(fn):
-        if isinstance(n, ast.Return) and n.value is not None:
-            ar.add(len(n.value.elts) if isinstance(n.value, ast.Tuple) else 1)
-    return ar
-
-
 def gaussian_head(ck, repo, nf, cq, has_tanh):
-    cls = repo.cls(cq)
-    mi = cls._module
-    call_fn = _method(repo, cq, "__call__")
-    call_arity = _return_arity(call_fn)
-    forms = {}
-    for meth in ("sample", "log_probability", "entropy"):
-        fn = _method(repo, cq, meth)
-        fn._module = mi
-        cfg = nf.cfg_of(fn)
-        obs = positional_params(fn)[1]
-        env = {p: Poly.atom(p, {p}, {p}) for p in positional_params(fn)}
-        env[obs] = Poly.atom("OBS", {"OBS"}, {"OBS"})
-        sc = Scope(cfg, mi, env, f"{cq}.{meth}", self_class=cq)
-        where = loc(mi, fn)
-        # R2: unpack arity of self(...) / self.net(...)
-        for n in ast.walk(fn):
-            if isinstance(n, ast.Assign) and isinstance(n.targets[0], ast.Tuple) and isinstance(n.value, ast.Call):
-                f = n.value.func
-                if isinstance(f, ast.Name) and f.id == "self":
-                    ok = call_arity == {len(n.targets[0].elts)}
-                    ck.ob("R2-unpack-arity", f"{cq}.{meth}", "unpack-of-self-call", ok, f"`{short(n)}`; __call__ returns {sorted(call_arity)} value(s)",
-                          "" if ok else f"`self(...)` returns {sorted(call_arity)} value(s) ({short(next(x.value for x in ast.walk(call_fn) if isinstance(x, ast.Return)), 40)}) but is unpacked into "
-                                        f"{len(n.targets[0].elts)}: the batch axis is iterated instead (raises for batch sizes != 2, garbage for batch size 2)", loc(mi, n))
-        d = _dist_call(fn)
-        if d is None:
-            # hand-written form: sample == normal(key, shape)*std + mean is accepted for `sample`
-            rets = [x for x in ast.walk(fn) if isinstance(x, ast.Return)]
-            rp = nf.poly(rets[0].value, sc, cfg.node_of(rets[0]).id)
-            forms[meth] = ("manual", rp)
-            continue
-        ctor, kws, op, node = d
-        at = cfg.node_of(node).id
-        loc_p = nf.poly(kws.get("loc"), sc, at) if "loc" in kws else None
-        scale_p = nf.poly(kws.get("scale_diag", kws.get("scale")), sc, at) if ("scale_diag" in kws or "scale" in kws) else None
-        forms[meth] = (ctor, loc_p, scale_p, op, node)
-    # expected parameter forms
-    net = "self.net(OBS)"
-    m0 = _method(repo, cq, "__call__")
-    senv = {"OBS": Poly.atom("OBS", {"OBS"}, {"OBS"})}
-    ssc = Scope(None, mi, senv, cq, self_class=cq)
-    if has_tanh:
-        want_mean = nf.poly(parse_expr("nnx.tanh(self.net(OBS)[0]) * jnp.broadcast_to(self.action_scale.value, self.net(OBS)[0].shape) + jnp.broadcast_to(self.action_bias.value, self.net(OBS)[0].shape)"), ssc, None)
-    else:
-        want_mean = nf.poly(parse_expr("self.net(OBS)[0]"), ssc, None)
+    cmi = repo.cls(cq)._module
+    ssc = Scope(None, cmi, {"OBS": OBS}, cq, self_class=cq)
+    net_out = nf.poly(parse_expr("self.net(OBS)"), ssc, None)
+    net0, net1 = nf.poly(parse_expr("self.net(OBS)[0]"), ssc, None), nf.poly(parse_expr("self.net(OBS)[1]"), ssc, None)
+    want_mean = nf.poly(parse_expr(TANH_MEAN_SPEC if has_tanh else "self.net(OBS)[0]"), ssc, None)
     want_std = nf.poly(parse_expr(STD_SPEC.replace("LV", "self.net(OBS)[1]")), ssc, None)
-    expect = {"sample": ("MultivariateNormalDiag", "sample"), "log_probability": ("MultivariateNormalDiag", "log_prob"), "entropy": ("Normal", "entropy")}
-    for meth, f in forms.items():
+    head = want_mean + want_std      # the ingredients of the head's parameters
+    expect = {"sample": {("MultivariateNormalDiag", "sample"), ("Normal", "sample")}, "log_probability": {("MultivariateNormalDiag", "log_prob")}, "entropy": {("Normal", "entropy")}}
+
+    def mean_ob(site, got, where, what="loc"):
+        got = _deref(nf, got)
+        ok = got == want_mean or _differs(site, "the mean", got, want_mean, ("OBS",))
+        ck.ob("R1-sibling-agreement", site, "mean", ok, f"{what} = {got.canon()[:120]}", "" if ok else f"the mean handed to the distribution is not the head's mean `{want_mean.canon()[:80]}`", where)
+
+    def std_ok(site, got):
+        got = _deref(nf, got)
+        if got == want_std:
+            return True
+        t = _std_triple(nf, got, net1)
+        if t is not None:
+            return t == (Fraction(1, 2), Fraction(-20), Fraction(2))      # constants of the documented clipped standard deviation, however the factor is placed
+        return _differs(site, "the scale", got, want_std, ("OBS",))
+
+    def std_ob(site, got, where, what="scale"):
+        ok = std_ok(site, got)
+        ck.ob("R1-sibling-agreement", site, "std", ok, f"{what} = {got.canon()[:120]}",
+              "" if ok else f"the scale handed to the distribution is not exp(clip(0.5*log_var, -20, 2)) of the head's log-variance `{want_std.canon()[:80]}`", where)
+
+    def one(meth):
         fn = _method(repo, cq, meth)
-        where = loc(mi, fn)
+        mi = fn._module
         site = f"{cq}.{meth}"
-        if f[0] == "manual":
-            rp = f[1]
-            if meth == "sample":
-                want = nf.poly(parse_expr("jax.random.normal(key, MEAN.shape) * STD + MEAN"), Scope(None, mi, {"MEAN": want_mean, "STD": want_std, "key": Poly.atom("key")}, cq), None)
-                ok = rp == want
-                ck.ob("R1-sibling-agreement", site, "sample-form", ok, f"sample = {rp.canon()[:140]}", "" if ok else "a hand-written sample must be normal(key, mean.shape) * std + mean with the head's own (mean, std)", where)
-            elif meth == "log_probability":
-                A = Poly.atom("action", {"action"}, {"action"})
-                e2 = {"MEAN": want_mean, "STD": want_std, "action": A}
-                alts = ["jnp.sum(-jnp.log(STD) - 0.5 * jnp.log(2.0 * jnp.pi) - 0.5 * ((action - MEAN) / STD) ** 2, axis=-1)"]
-                ok = any(rp == nf.poly(parse_expr(a), Scope(None, mi, e2, cq), None) for a in alts)
-                ck.ob("R3-distribution-call", site, "closed-form-density", ok, f"log_prob = {rp.canon()[:150]}",
-                      "" if ok else "hand-written log-density is not sum_d(-log std - 0.5*log(2*pi) - 0.5*((a-mean)/std)^2) of the head's (mean, std)", where)
-            else:
-                ck.ob("R3-distribution-call", site, "entropy-form", False, f"entropy = {rp.canon()[:120]}", "entropy is not computed from Normal(mean, std) of the head's parameters (unrecognised closed form)", where)
-            continue
-        ctor, loc_p, scale_p, op, node = f
-        okc = (ctor, op) == expect[meth]
-        ck.ob("R3-distribution-call", site, "distribution", okc, f"dist.{ctor}(...).{op}(...)", "" if okc else f"documented: dist.{expect[meth][0]}(mean, std).{expect[meth][1]}", loc(mi, node))
-        okm = loc_p is not None and loc_p == want_mean
-        from ..sem import same_ingredients as _same
-        for got_, want_, what_ in ((loc_p, want_mean, "mean"), (scale_p, want_std, "scale")):
-            if got_ is not None and got_ != want_ and ("φ(" in got_.canon() or not _same(got_, want_mean + want_std, ("OBS",))):
-                raise AnalysisError(f"{site}: the {what_} handed to the distribution `{got_.canon()[:80]}` is not read back to the head's network output (unrecognised form)")
-        ck.ob("R1-sibling-agreement", site, "mean", okm, f"loc = {loc_p.canon()[:120] if loc_p is not None else None}", "" if okm else f"the mean handed to the distribution is not the head's mean `{want_mean.canon()[:80]}`", loc(mi, node))
-        oks = scale_p is not None and scale_p == want_std
-        ck.ob("R1-sibling-agreement", site, "std", oks, f"scale = {scale_p.canon()[:120] if scale_p is not None else None}",
-              "" if oks else f"the scale handed to the distribution is not exp(clip(0.5*log_var, -20, 2)) of the head's log-variance `{want_std.canon()[:80]}`", loc(mi, node))
+        pn = _params(fn, 2 if meth == "entropy" else 3, site)
+        cfg = nf.cfg_of(fn)
+        env = {p: _role(p) for p in pn}
+        env[pn[1]] = OBS
+        if meth != "entropy":
+            env[pn[2]] = KEY if meth == "sample" else ACTION
+        sc = Scope(cfg, mi, env, site, self_class=cq)
+        # R2: a tuple-unpack of self(...) gets as many values as __call__ returns (read from the normal form of the call, not from its text)
+        for n in _own(fn, ast.Assign):
+            t = n.targets[0]
+            if isinstance(t, ast.Tuple) and isinstance(n.value, ast.Call) and isinstance(n.value.func, ast.Name) and n.value.func.id == "self" and not any(isinstance(e, ast.Starred) for e in t.elts):
+                vp = nf.poly(n.value, sc, cfg.node_of(n).id)
+                ar = _value_arity(nf, vp, (want_mean, want_std, net0, net1), (net_out,))
+                if ar is None:
+                    raise AnalysisError(f"{site}: the number of values `{short(n.value, 40)}` returns is not read from `{vp.canon()[:80]}` (unrecognised form)")
+                ok = ar == len(t.elts)
+                ck.ob("R2-unpack-arity", site, "unpack-of-self-call", ok, f"`{short(n)}`; __call__ returns {ar} value(s): {vp.canon()[:80]}",
+                      "" if ok else f"`self(...)` returns {ar} value(s) but is unpacked into {len(t.elts)}: the batch axis is iterated instead (raises for batch sizes != {len(t.elts)}, garbage otherwise)", loc(mi, n))
+        for rp, ret in _returned(nf, fn, sc, site, every=True):
+            returned(meth, site, mi, rp, ret)
+
+    def returned(meth, site, mi, rp, ret):
+        d = _dist_read(nf, rp)
+        if d is None:
+            return manual(meth, site, rp, loc(mi, ret))
+        ctor, params, op, oargs = d
+        okc = (ctor, op) in expect[meth]
+        if not okc and not (ctor in ("Normal", "MultivariateNormalDiag") and op in TFP_OPS):
+            raise AnalysisError(f"{site}: `{ctor}(...).{op}(...)` is not a distribution / method this rule knows (unrecognised form)")
+        ck.ob("R3-distribution-call", site, "distribution", okc, f"dist.{ctor}(...).{op}(...)", "" if okc else f"documented: dist.{sorted(expect[meth])[0][0]}(mean, std).{sorted(expect[meth])[0][1]}", loc(mi, ret))
+        sname = TFP_PARAMS[ctor][1]
+        if "loc" not in params or sname not in params or set(params) - {"loc", sname, "validate_args", "allow_nan_stats", "name"}:
+            raise AnalysisError(f"{site}: `{ctor}` is parameterised by {sorted(params)} (unrecognised form)")
+        if meth != "entropy" or _deref(nf, params["loc"]) == want_mean:      # the entropy of Normal(loc, scale) does not depend on loc: another loc there is no difference in behaviour
+            mean_ob(site, params["loc"], loc(mi, ret))
+        std_ob(site, params[sname], loc(mi, ret))
         if meth == "log_probability":
-            arg = node.args[0] if node.args else None
-            ok = isinstance(arg, ast.Name) and arg.id == "action"
-            ck.ob("R3-distribution-call", site, "density-of-action", ok, f"log_prob({short(arg) if arg is not None else None})", "" if ok else "the density must be evaluated at the given action", loc(mi, node))
+            _action_ob(ck, site, oargs.get("value"), sorted(set(re.findall(r"[A-Za-z_]\w*", head.canon())) | {"OBS"}), "the density must be evaluated at the given action", loc(mi, ret))
         if meth == "sample":
-            kw = {k.arg: k.value for k in node.keywords}
-            ok = isinstance(kw.get("seed"), ast.Name) and kw["seed"].id == "key"
-            ck.ob("R3-distribution-call", site, "key-determined", ok, f"sample(seed={short(kw['seed']) if 'seed' in kw else None})", "" if ok else "the sample must be determined by the key argument", loc(mi, node))
+            _key_ob(ck, site, oargs.get("seed"), loc(mi, ret))
+
+    def manual(meth, site, rp, where):
+        """Hand-written forms: accepted when they normalise to the documented closed form of the head's own (mean, std)."""
+        rp = _deref(nf, rp)
+        if _unread(rp):
+            raise AnalysisError(f"{site}: returned value `{rp.canon()[:100]}` is not read (unrecognised form)")
+        if meth == "sample":
+            # mean + std * N(key): the parts are read off the polynomial in the noise atom
+            noise = [a for a in rp.atoms() if _fn(nf.meta.get(a, {})) == "normal"]
+            if not noise and same_ingredients(rp, head, ("OBS",)):
+                ck.ob("R1-sibling-agreement", site, "mean", False, f"sample = {rp.canon()[:140]}", "a hand-written sample must be normal(key, mean.shape) * std + mean: no key-determined noise enters the returned value", where)
+                return
+            if len(noise) != 1:
+                raise AnalysisError(f"{site}: {len(noise)} standard-normal draws in `{rp.canon()[:100]}` (unrecognised form)")
+            parts = rp.degree_split(noise[0])
+            if not set(parts) <= {0, 1} or 1 not in parts:
+                raise AnalysisError(f"{site}: the returned value is not linear in the noise `{noise[0][:60]}` (unrecognised form)")
+            mean_p, std_p = parts.get(0, Poly({})), parts[1]
+            mn = nf.meta[noise[0]]
+            if "**" in mn["kws"] or set(mn["kws"]) - {"key", "shape", "dtype"}:
+                raise AnalysisError(f"{site}: arguments of the noise draw `{noise[0][:80]}` (unrecognised form)")
+            key_p = mn["args"][0] if mn["args"] else mn["kws"].get("key")
+            shape_p = mn["args"][1] if len(mn["args"]) > 1 else mn["kws"].get("shape")
+            ms = nf.meta.get(shape_p.single_atom() or "", {}) if shape_p is not None else {}
+            shaped_like = _deref(nf, ms["args"][0]) if ms.get("fn") == "attr" and (shape_p.single_atom() or "").endswith(".shape") and len(ms.get("args", [])) == 1 else None
+            m_std = nf.meta.get(std_p.single_atom() or "", {})
+            like = [want_mean, want_std, net0, net1, mean_p, std_p] + (list(m_std["args"]) if _fn(m_std) == "exp" else []) + list(nf.meta.get(want_std.single_atom(), {}).get("args", []))
+            if shaped_like is None or shaped_like not in like:
+                raise AnalysisError(f"{site}: the shape of the noise `{shape_p.canon()[:80] if shape_p is not None else None}` is not the shape of the head's mean / std (unrecognised form)")
+            mean_ob(site, mean_p, where, "sample - std*noise")
+            std_ob(site, std_p, where, "d sample / d noise")
+            _key_ob(ck, site, key_p, where)
+        elif meth == "log_probability":
+            e2 = {"MEAN": want_mean, "STD": want_std, "ACTION": ACTION}
+            alts = [nf.poly(parse_expr(a), Scope(None, cmi, e2, cq), None) for a in ("jnp.sum(-jnp.log(STD) - 0.5 * jnp.log(2.0 * jnp.pi) - 0.5 * ((ACTION - MEAN) / STD) ** 2, axis=-1)",)]
+            ok = rp in alts or _differs(site, "the hand-written log-density", rp, alts[0])
+            ck.ob("R3-distribution-call", site, "closed-form-density", ok, f"log_prob = {rp.canon()[:150]}",
+                  "" if ok else "hand-written log-density is not sum_d(-log std - 0.5*log(2*pi) - 0.5*((a-mean)/std)^2) of the head's (mean, std)", where)
+        else:
+            e2 = {"STD": want_std}
+            alts = [nf.poly(parse_expr(a), Scope(None, cmi, e2, cq), None) for a in ("0.5 + 0.5 * jnp.log(2.0 * jnp.pi) + jnp.log(STD)", "0.5 * jnp.log(2.0 * jnp.pi * jnp.e * STD ** 2)")]
+            ok = rp in alts or _differs(site, "the hand-written entropy", rp, alts[0])
+            ck.ob("R3-distribution-call", site, "entropy-form", ok, f"entropy = {rp.canon()[:120]}", "" if ok else "entropy is not the per-dimension closed form 0.5 + 0.5*log(2*pi) + log(std) of the head's std", where)
+
+    for meth in ("sample", "log_probability", "entropy"):
+        ck.guard(one, meth)
     # __call__ of the tanh head returns (mean, std) by the same forms
     if has_tanh:
-        cfg = nf.cfg_of(call_fn)
-        call_fn._module = mi
-        obs = positional_params(call_fn)[1]
-        sc = Scope(cfg, mi, {obs: Poly.atom("OBS", {"OBS"}, {"OBS"})}, f"{cq}.__call__", self_class=cq)
-        rets = [n for n in ast.walk(call_fn) if isinstance(n, ast.Return)]
-        rp = nf.poly(rets[0].value, sc, cfg.node_of(rets[0]).id)
-        ok = rp.elems is not None and len(rp.elems) == 2 and rp.elems[0] == want_mean and rp.elems[1] == want_std
-        ck.ob("R1-sibling-agreement", f"{cq}.__call__", "mean-std", ok, f"return {rp.canon()[:150]}", "" if ok else "__call__ must return (tanh-scaled mean, exp(clip(0.5*log_var, -20, 2)))", loc(mi, call_fn))
+        call_fn = _method(repo, cq, "__call__")
+        mi = call_fn._module
+        site = f"{cq}.__call__"
+        pn = _params(call_fn, 2, site)
+        sc = Scope(nf.cfg_of(call_fn), mi, {pn[1]: OBS}, site, self_class=cq)
+        rp, ret = _returned(nf, call_fn, sc, site)
+        m = nf.meta.get(rp.single_atom() or "", {}) if rp.elems is None else {}
+        parts = rp.elems if rp.elems is not None else (m["args"] if "record" in m else None)
+        if parts is None or len(parts) != 2:
+            raise AnalysisError(f"{site}: returned value `{rp.canon()[:100]}` is not a (mean, std) pair (unrecognised form)")
+        parts = [_deref(nf, x) for x in parts]
+        ok = (parts[0] == want_mean or _differs(site, "the mean", parts[0], want_mean, ("OBS",))) and std_ok(site, parts[1])
+        ck.ob("R1-sibling-agreement", site, "mean-std", ok, f"return {rp.canon()[:150]}", "" if ok else "__call__ must return (tanh-scaled mean, exp(clip(0.5*log_var, -20, 2)))", loc(mi, call_fn))
 
 
 def softmax_head(ck, repo, nf):
     cq = PH + "SoftmaxPolicy"
-    cls = repo.cls(cq)
-    mi = cls._module
+    cmi = repo.cls(cq)._module
+    raw = nf.poly(parse_expr("self.net(OBS)"), Scope(None, cmi, {"OBS": OBS}, cq), None)
     lg = _method(repo, cq, "logits")
-    lg._module = mi
-    rets = [n for n in ast.walk(lg) if isinstance(n, ast.Return)]
-    lgc = nf.cfg_of(lg)
-    lobs = positional_params(lg)[1]
-    ok = len(rets) == 1 and nf.poly(rets[0].value, Scope(lgc, mi, {lobs: Poly.atom("OBS")}, cq), lgc.node_of(rets[0]).id).canon() == "self.net(OBS)"
-    ck.ob("R3-distribution-call", f"{cq}.logits", "logits", ok, f"return {ast.unparse(rets[0].value) if rets else None}", "" if ok else "logits must be the raw network output", loc(mi, lg))
-    c = _method(repo, cq, "__call__")
-    rets = [n for n in ast.walk(c) if isinstance(n, ast.Return)]
-    txt = ast.unparse(rets[0].value) if rets else ""
-    c._module = mi
-    cc = nf.cfg_of(c)
-    cobs = positional_params(c)[1]
-    nfo = NF(repo, inline_depth=1, inline_calls=False)
-    got = nfo.poly(rets[0].value, Scope(cc, mi, {cobs: Poly.atom("OBS")}, cq), cc.node_of(rets[0]).id).canon() if rets else ""
-    ok = got in ("softmax(self.logits(OBS))", "softmax(self.logits(OBS), axis=-1)")
-    ck.ob("R3-distribution-call", f"{cq}.__call__", "softmax", ok, f"return {txt}", "" if ok else "probabilities must be softmax(logits) over the last axis (non-negative, summing to one)", loc(mi, c))
-    for meth, op in (("sample", "sample"), ("log_probability", "log_prob"), ("entropy", "entropy")):
+    site = f"{cq}.logits"
+    pn = _params(lg, 2, site)
+    logits, ret = _returned(nf, lg, Scope(nf.cfg_of(lg), lg._module, {pn[1]: OBS}, site, self_class=cq), site)
+    if _unread(logits):
+        raise AnalysisError(f"{site}: returned value `{logits.canon()[:100]}` is not read (unrecognised form)")
+    try:
+        ok = logits == raw or _differs(site, "the logits", logits, raw, ("OBS",))
+        ck.ob("R3-distribution-call", site, "logits", ok, f"return {logits.canon()[:100]}", "" if ok else "logits must be the raw network output", loc(lg._module, lg))
+    except AnalysisError as e:
+        ck.incomplete.append(str(e))      # the siblings are still judged against what the head's logits are
+    # the siblings are compared with the head's own logits (what self.logits(obs) evaluates to)
+    extras = sorted(set(re.findall(r"[A-Za-z_]\w*", logits.canon())) | {"OBS"})
+
+    def call():
+        c = _method(repo, cq, "__call__")
+        site = f"{cq}.__call__"
+        pn = _params(c, 2, site)
+        rp, ret = _returned(nf, c, Scope(nf.cfg_of(c), c._module, {pn[1]: OBS}, site, self_class=cq), site)
+        m = nf.meta.get(rp.single_atom() or "", {}) if rp.elems is None else {}
+        f = _fn(m)
+        args, kws = list(m.get("args", [])), dict(m.get("kws", {}))
+        axis = kws.pop("axis", args[1] if len(args) == 2 else None)
+        # evidence of a violation: softmax of something else made of the same ingredients, another squashing function of the logits (another axis is not
+        # evidence: reshapes are value-transparent in the normal form, the layout the axis refers to is not known)
+        if not _unread(rp) and f == "softmax" and len(args) in (1, 2) and not kws and (axis is None or axis.is_const()):
+            ok = args[0] == logits or _differs(site, "the argument of softmax", args[0], logits, extras)
+            if ok and not (axis is None or axis.const_value() == -1):
+                raise AnalysisError(f"{site}: `{rp.canon()[:100]}`: the layout axis {axis.canon()} refers to is not tracked (unrecognised form)")
+        elif not _unread(rp) and f in ("sigmoid", "log_softmax", "tanh", "relu", "softplus", "exp", "log_sigmoid") and args and args[0] == logits:
+            ok = False
+        else:
+            raise AnalysisError(f"{site}: returned value `{rp.canon()[:100]}` is not read as softmax(logits) (unrecognised form)")
+        ck.ob("R3-distribution-call", site, "softmax", ok, f"return {rp.canon()[:100]}", "" if ok else "probabilities must be softmax(logits) over the last axis (non-negative, summing to one)", loc(c._module, c))
+
+    def one(meth, op):
         fn = _method(repo, cq, meth)
-        fn._module = mi
-        d = _dist_call(fn)
+        mi = fn._module
         site = f"{cq}.{meth}"
+        pn = _params(fn, 2 if meth == "entropy" else 3, site)
+        env = {p: _role(p) for p in pn}
+        env[pn[1]] = OBS
+        if meth != "entropy":
+            env[pn[2]] = KEY if meth == "sample" else ACTION
+        for rp, ret in _returned(nf, fn, Scope(nf.cfg_of(fn), mi, env, site, self_class=cq), site, every=True):
+            returned(meth, op, site, rp, loc(mi, ret))
+
+    def returned(meth, op, site, rp, where):
+        detail = f"must be Categorical(logits=self.logits(obs)).{op} on the head's own logits"
+        d = _dist_read(nf, rp)
         if d is None:
-            ck.ob("R3-distribution-call", site, "categorical-on-logits", False, f"{short(next((n.value for n in ast.walk(fn) if isinstance(n, ast.Return)), None), 90)}",
-                  f"{meth} is not computed by Categorical(logits=self.logits(obs)).{op}: a probability-space formula is not defined for extreme logits (p underflows to 0 -> log p = -inf, 0*inf = NaN)", loc(mi, fn))
-            continue
-        ctor, kws, gop, node = d
-        cfg = nf.cfg_of(fn)
-        obs = positional_params(fn)[1]
-        sc = Scope(cfg, mi, {obs: Poly.atom("OBS", {"OBS"}, {"OBS"})}, site, self_class=cq)
-        lp = nf.poly(kws["logits"], sc, cfg.node_of(node).id).canon() if "logits" in kws else None
-        ok = ctor == "Categorical" and gop == op and lp == "self.net(OBS)"
-        ck.ob("R3-distribution-call", site, "categorical-on-logits", ok, f"dist.{ctor}(logits={lp}).{gop}", "" if ok else f"must be Categorical(logits=self.logits(obs)).{op} on the head's own logits", loc(mi, node))
-        if meth == "log_probability":
-            arg = node.args[0] if node.args else None
-            ok = isinstance(arg, ast.Name) and arg.id == "action"
-            ck.ob("R3-distribution-call", site, "density-of-action", ok, f"log_prob({short(arg) if arg is not None else None})", "" if ok else "log-probability of the selected entry", loc(mi, node))
+            # positive evidence of a probability-space formula: a logarithm taken of softmax probabilities
+            def has_softmax(p):
+                return any(_fn(m) == "softmax" for _, m in _atoms(nf, p))
+            logs = [a for a, m in _atoms(nf, rp) if _fn(m) == "log" and any(has_softmax(x) for x in m.get("args", []))]
+            if _unread(rp) or not logs:
+                raise AnalysisError(f"{site}: returned value `{rp.canon()[:100]}` is neither a tfp Categorical result nor a formula this rule reads (unrecognised form)")
+            ck.ob("R3-distribution-call", site, "categorical-on-logits", False, f"{rp.canon()[:120]}",
+                  f"{meth} is not computed by Categorical(logits=self.logits(obs)).{op}: a probability-space formula is not defined for extreme logits (p underflows to 0 -> log p = -inf, 0*inf = NaN)", where)
+            return
+        ctor, params, gop, oargs = d
+        if ctor != "Categorical" or gop != op:
+            if ctor not in ("Categorical", "OneHotCategorical", "Multinomial", "Bernoulli", "Normal", "MultivariateNormalDiag") or gop not in TFP_OPS:
+                raise AnalysisError(f"{site}: `{ctor}(...).{gop}(...)` is not a distribution / method this rule knows (unrecognised form)")
+            ok = False
+        elif set(params) - {"logits", "probs", "dtype", "validate_args", "allow_nan_stats", "name"} or ("logits" in params) == ("probs" in params):
+            raise AnalysisError(f"{site}: `Categorical` is parameterised by {sorted(params)} (unrecognised form)")
+        elif "logits" in params:
+            ok = params["logits"] == logits or _differs(site, "the logits handed to Categorical", params["logits"], logits, extras + ["softmax"])
+        else:
+            # probs=softmax(logits) is the probability-space parameterisation (another provenance of the same distribution: not defined for extreme logits)
+            mp = nf.meta.get(params["probs"].single_atom() or "", {})
+            if not (_fn(mp) == "softmax" and mp.get("args") and mp["args"][0] == logits):
+                raise AnalysisError(f"{site}: probs `{params['probs'].canon()[:80]}` handed to Categorical are not read (unrecognised form)")
+            ok = False
+        lp = params.get("logits", params.get("probs"))
+        ck.ob("R3-distribution-call", site, "categorical-on-logits", ok, f"dist.{ctor}({'logits' if 'logits' in params else 'probs' if 'probs' in params else '?'}={lp.canon()[:80] if lp is not None else None}).{gop}", "" if ok else detail, where)
+        if meth == "log_probability" and gop == "log_prob":
+            _action_ob(ck, site, oargs.get("value"), extras, "log-probability of the selected entry", where)
+        if meth == "sample" and gop == "sample":
+            _key_ob(ck, site, oargs.get("seed"), where)
+
+    ck.guard(call)
+    for meth, op in (("sample", "sample"), ("log_probability", "log_prob"), ("entropy", "entropy")):
+        ck.guard(one, meth, op)
 
 
-def greedy_rules(ck, repo, nf):
-    # tabular
+def _argmax_ob(ck, nf, site, key, gotp, wants, axes, extras, detail, where):
+    """R4: the returned action is argmax of one of the ``wants`` (over the whole array or the given equivalent axes).  Evidence of a violation: another
+    reduction (argmin, max, ...), argmax of something else made of the same ingredients.  Another axis is NOT evidence: the normal form reads ravel /
+    flatten / squeeze / reshape as value-transparent, so the layout the axis refers to is not known (ravel(x).argmax(axis=0) is the argmax over all of x)."""
+    m = nf.meta.get(gotp.single_atom() or "", {}) if gotp.elems is None else {}
+    f = _fn(m)
+    args, kws = list(m.get("args", [])), dict(m.get("kws", {}))
+    if _unread(gotp) or f not in ("argmax", "argmin", "max", "min", "amax", "amin", "argsort", "sum", "mean") or not args:
+        raise AnalysisError(f"{site}: returns `{gotp.canon()[:100]}` (an arg-max written in a way this rule does not read)")
+    ok = False
+    if f == "argmax":
+        axis = kws.pop("axis", args[1] if len(args) == 2 else None)
+        if kws or len(args) > 2 or (axis is not None and not axis.is_const()):
+            raise AnalysisError(f"{site}: options of `{gotp.canon()[:100]}` (unrecognised form)")
+        ok = args[0] in wants or _differs(site, "the argument of argmax", args[0], wants[0], extras)
+        if ok and not (axis is None or axis.const_value() in axes):
+            raise AnalysisError(f"{site}: `{gotp.canon()[:100]}`: the layout axis {axis.canon()} refers to is not tracked (unrecognised form)")
+    ck.ob("R4-greedy", site, key, ok, f"return {gotp.canon()[:100]}", "" if ok else detail, where)
+
+
+def _single_return(nf, q, env):
+    try:
+        return nf.return_poly(q, env)
+    except ValueError as e:
+        raise AnalysisError(f"{e} (unrecognised form)")
+
+
+def greedy_tabular(ck, repo, nf):
     q = "rl_blox.blox.value_policy.greedy_policy"
     fn = repo.func(q)
-    got = nf.return_poly(q, {p: Poly.atom(p, {p}, {p}) for p in param_names(fn)}).canon()
-    ck.ob("R4-greedy", q, "argmax-row", got == "argmax(q_table[observation])", f"return {got}", "" if got == "argmax(q_table[observation])" else "greedy action must be argmax over the observation's row", loc(fn._module, fn))
+    pn = _params(fn, 2, q)
+    env = {p: _role(p) for p in pn}
+    env.update({pn[0]: _role("Q"), pn[1]: OBS})
+    row = nf.poly(parse_expr("Q[OBS]"), Scope(None, fn._module, {"Q": _role("Q"), "OBS": OBS}, q), None)
+    _argmax_ob(ck, nf, q, "argmax-row", _single_return(nf, q, env), [row], (-1, 0), ("OBS",), "greedy action must be argmax over the observation's row", loc(fn._module, fn))
+
+
+def greedy_network(ck, repo, nf):
     q = "rl_blox.blox.q_policy.greedy_policy"
     fn = repo.func(q)
-    gotp = nf.return_poly(q, {p: Poly.atom(p, {p}, {p}) for p in param_names(fn)})
-    got = gotp.canon()
-    ok = got in ("argmax(q_net((obs)))", "argmax(q_net([obs]))", "argmax(q_net(obs))", "argmax(q_net((obs)), axis=-1)")
-    if not ok:
-        m_ = nf.meta.get(gotp.single_atom() or "", {})
-        f_ = m_.get("fn", "").split(".")[-1]
-        if f_ == "argmax" or f_ not in ("argmin", "max", "min", "argsort", "sum", "mean"):
-            raise AnalysisError(f"{q}: returns `{got[:100]}` (an arg-max written in a way this rule does not read)")
-    ck.ob("R4-greedy", q, "argmax-network", ok, f"return {got}", "" if ok else "greedy action must be argmax of the network output on the observation", loc(fn._module, fn))
-    # epsilon-greedy: per path to a return, the returned action is either the uniform draw (iff roll < epsilon) or the greedy action
+    pn = _params(fn, 2, q)
+    env = {p: _role(p) for p in pn}
+    env.update({pn[0]: _role("QNET"), pn[1]: OBS})
+    wants = [nf.poly(parse_expr(t), Scope(None, fn._module, {"QNET": _role("QNET"), "OBS": OBS}, q), None) for t in ("QNET(jnp.array([OBS]))", "QNET(OBS)", "QNET(jnp.expand_dims(OBS, 0))", "QNET(jnp.expand_dims(OBS, axis=0))", "QNET(OBS[None])", "QNET(OBS[None, :])", "QNET(OBS[jnp.newaxis])", "QNET(jnp.stack([OBS]))", "QNET(jnp.atleast_2d(OBS))")]      # spellings of the batch of one observation
+    _argmax_ob(ck, nf, q, "argmax-network", _single_return(nf, q, env), wants, (-1, 1), (), "greedy action must be argmax of the network output on the observation", loc(fn._module, fn))
+
+
+def _reads_entries(nf, p, table="Q"):
+    """The value depends on entries of the table (reads through len / shape / size do not count)."""
+    def shape_read(a, m):
+        return _fn(m) in ("len", "shape", "ndim", "size", "zeros_like", "ones_like", "full_like", "empty_like") or (m.get("fn") == "attr" and a.rsplit(".", 1)[-1] in ("shape", "ndim", "size", "dtype"))
+    return any(a == table for a, m in _atoms(nf, p, skip=shape_read) if not shape_read(a, m))
+
+
+def epsilon_greedy_tabular(ck, repo, nfp):
+    """Per path to a return, the returned action is either the uniform draw (iff roll < epsilon) or the greedy action."""
     from ..sympath import enumerate_paths, PathEval
     from ..sem import selector_table
     q = "rl_blox.blox.value_policy.epsilon_greedy_policy"
     fn = repo.func(q)
     mi = fn._module
-    cfg = nf.cfg_of(fn)
-    env = {p: Poly.atom(p, {p}, {p}) for p in param_names(fn)}
-    rets = [n for n in cfg.nodes if n.kind == "stmt" and isinstance(n.ast, ast.Return)]
+    cfg = nfp.cfg_of(fn)
+    pn = _params(fn, 4, q)
+    roles = {"Q": _role("Q"), "OBS": OBS, "EPS": _role("EPS"), "KEY": KEY}
+    env = {p: _role(p) for p in pn}
+    env.update(dict(zip(pn[:4], roles.values())))
+    rsc = Scope(None, mi, roles, q)
+    row = nfp.poly(parse_expr("Q[OBS]"), rsc, None)
+    counts = [nfp.poly(parse_expr(t), rsc, None) for t in ("len(Q[OBS])", "Q[OBS].shape[0]", "Q[OBS].shape[-1]", "Q.shape[-1]", "Q[OBS].size")]
+    table_args = [_role("Q"), OBS]
+    rets = [n for n in cfg.nodes if n.kind == "stmt" and isinstance(n.ast, ast.Return) and n.ast.value is not None]
     ck.need(rets, f"{q}: no return")
-    nfp = NF(repo, inline_depth=1, inline_calls=False)
-    items, kinds, roll_src = [], {}, None
+    items, kinds = [], {}
     for pth in enumerate_paths(cfg, cfg.entry, {r.id for r in rets}):
         pe = PathEval(nfp, cfg, mi, q, env).run(pth[:-1])
-        rv = pe.ev(cfg.nodes[pth[-1][0]].ast.value).canon()
-        if rv.startswith("choice(") or "randint(" in rv or rv.startswith("rl_blox") and "random" in rv:
+        rvp = pe.ev(cfg.nodes[pth[-1][0]].ast.value)
+        rv = rvp.canon()
+        m = nfp.meta.get(rvp.single_atom() or "", {}) if rvp.elems is None else {}
+        f, args, kws = _fn(m), list(m.get("args", [])), dict(m.get("kws", {}))
+        if _unread(rvp):
+            raise AnalysisError(f"{q}: returned action `{rv[:80]}` is not read (unrecognised idiom)")
+        if f in ("choice", "randint") and m.get("fn", "").split(".")[0] in ("random", "choice", "randint"):
             kind = "random"
-            okr = "arange(len(q_table[observation]))" in rv and "q_table[observation]" not in rv.replace("len(q_table[observation])", "") or ("randint(" in rv and "q_table" in rv and "argmax" not in rv)
+            if _reads_entries(nfp, rvp):
+                okr = False      # evidence: the draw depends on the entries of the row
+            else:
+                # uniform over the row's actions: choice(key, n | arange(n)) without weights, randint(key, shape, 0, n)
+                if f == "choice":
+                    pop = args[1] if len(args) > 1 else kws.get("a")
+                    mp = nfp.meta.get(pop.single_atom() or "", {}) if pop is not None else {}
+                    n_ = mp["args"][0] if _fn(mp) == "arange" and len(mp.get("args", [])) == 1 and not mp.get("kws") else pop
+                    plain = len(args) <= 3 and not (set(kws) - {"a", "shape", "replace"}) and all(x.canon() in ("()", "None", "1", "0") for x in args[2:3] + [v for k_, v in kws.items() if k_ in ("shape", "replace")])
+                else:
+                    n_ = args[3] if len(args) > 3 else kws.get("maxval")
+                    lo_ = args[2] if len(args) > 2 else kws.get("minval")
+                    plain = lo_ is not None and lo_ == Poly.const(0) and not (set(kws) - {"shape", "minval", "maxval", "dtype"})
+                if n_ is None or n_ not in counts or not plain:
+                    raise AnalysisError(f"{q}: exploring arm `{rv[:80]}` is not read as a uniform draw among the row's actions (unrecognised idiom)")
+                okr = True
             kinds.setdefault("random", []).append((rv, okr))
-        elif rv == "argmax(q_table[observation])" or rv.endswith("greedy_policy(q_table, observation)"):
+        elif (f == "argmax" and args and args[0] == row and not (set(kws) - {"axis"}) and len(args) <= 2) or (f == "greedy_policy" and m["fn"] == "rl_blox.blox.value_policy.greedy_policy" and args == table_args and not kws):
             kind = "greedy"
             kinds.setdefault("greedy", []).append((rv, True))
         else:
             raise AnalysisError(f"{q}: returned action `{rv[:80]}` is neither the uniform draw nor the greedy action (unrecognised idiom)")
         conds = [(cfg.nodes[nid].ast.test, nid, lab) for nid, lab in pth[:-1] if cfg.nodes[nid].kind == "test" and lab in (True, False) and isinstance(cfg.nodes[nid].ast, ast.If)]
         items.append((conds, kind))
-    # the roll: the value compared with epsilon
-    rolls = [n for n in ast.walk(fn) if isinstance(n, ast.Call) and isinstance(n.func, ast.Attribute) and n.func.attr == "uniform"]
-    ck.need(len(rolls) >= 1, f"{q}: no uniform roll found (unrecognised idiom)")
-    roll_txt = nfp.poly(rolls[0], Scope(None, mi, env, q), None).canon()
-    # predicate in terms of the roll's defining call (locals are inlined by the normal form on both sides)
-    pred = ast.Compare(left=rolls[0], ops=[ast.Lt()], comparators=[ast.Name(id="epsilon", ctx=ast.Load())])
+    # the roll: the uniform draw that is compared with epsilon
+    rolls = [n for n in _own(fn, ast.Call) if isinstance(n.func, (ast.Name, ast.Attribute)) and repo.resolve_expr(mi, n.func) == "jax.random.uniform"]
+    ck.need(len(rolls) == 1, f"{q}: {len(rolls)} uniform rolls found (unrecognised idiom)")
+    # predicate in terms of the roll's defining call (locals are inlined by the normal form on both sides); epsilon by its position in the signature
+    pred = ast.Compare(left=rolls[0], ops=[ast.Lt()], comparators=[ast.Name(id=pn[2], ctx=ast.Load())])
     first_test = next((nid for conds_, _ in items for _, nid, _ in conds_), None)
     ck.need(first_test is not None, f"{q}: the action does not depend on any test (unrecognised idiom)")
-    verdict, info = selector_table(nfp, mi, cfg, items, pred, "random", "greedy", opaque=set(param_names(fn)), pred_at=first_test)
+    roll_txt = nfp.poly(rolls[0], Scope(cfg, mi, {}, q), first_test).canon()
+    verdict, info = selector_table(nfp, mi, cfg, items, pred, "random", "greedy", opaque=set(pn), pred_at=first_test)
     if verdict is None:
         raise AnalysisError(f"{q}: exploration test not comparable with `roll < epsilon`: {info}")
-    ck.ob("R4-greedy", q, "roll<epsilon", verdict, f"random iff {roll_txt[:60]} < epsilon (truth table over the branch conditions)", "" if verdict else f"exploration must happen exactly when roll < epsilon with roll ~ U[0,1) (epsilon 0 always greedy, epsilon 1 never greedy); differs in the world {info}", loc(mi, fn))
+    ck.ob("R4-greedy", q, "roll<epsilon", verdict, f"random iff {roll_txt[:60]} < {pn[2]} (truth table over the branch conditions)", "" if verdict else f"exploration must happen exactly when roll < epsilon with roll ~ U[0,1) (epsilon 0 always greedy, epsilon 1 never greedy); differs in the world {info}", loc(mi, fn))
     okr = "random" in kinds and all(ok_ for _, ok_ in kinds["random"])
     ck.ob("R4-greedy", q, "random-arm", okr, f"explore -> {[r_[:70] for r_, _ in kinds.get('random', [])][:1]}", "" if okr else "the exploring arm must draw uniformly among the row's actions without reading the values", loc(mi, fn))
     okg = "greedy" in kinds
     ck.ob("R4-greedy", q, "greedy-arm", okg, f"exploit -> {[r_[:70] for r_, _ in kinds.get('greedy', [])][:1]}", "" if okg else "the non-exploring arm must be the greedy action of the same table and observation", loc(mi, fn))
-    # DQN family loops: per path through the action selection, the executed action is the space sample iff (step < learning_starts or
-    # roll[step] < epsilon[step]) and the greedy action of the online network on the current observation otherwise
-    fam = {"rl_blox.algorithm.dqn.train_dqn": False, "rl_blox.algorithm.nature_dqn.train_nature_dqn": True, "rl_blox.algorithm.ddqn.train_ddqn": True, "rl_blox.algorithm.per.train_ddqn_per": True}
-    for lq, has_ls in fam.items():
-        L = find_env_loop(repo, lq)
-        cfg, mi = L.cfg, L.mi
-        hdr = cfg.nodes[L.outer_header].ast
-        cvar = hdr.target.id if isinstance(hdr, ast.For) else next(x.id for x in (hdr.test.left, hdr.test.comparators[0]) if isinstance(x, ast.Name) and x.id != "total_timesteps")
-        act = L.step_call.args[0]
-        while isinstance(act, ast.Call):
-            act = act.args[0]
-        ck.need(isinstance(act, ast.Name), f"{lq}: env.step argument is not a variable")
-        envl = {p: Poly.atom(p, {p}, {p}) for p in param_names(L.fn)}
-        envl[cvar] = Poly.atom(cvar, {cvar}, {cvar})
-        stored = None
+
+
+def _pointwise(cfg, e, at, depth=0):
+    """A test that indexes a comparison of two equally long arrays is the comparison of their entries: (a < b)[i] == a[i] < b[i] (`explore = rolls < eps`
+    decided once for all steps, `if explore[step]`).  Locals are followed while their operands still hold the values they had at the definition."""
+    if depth > 6:
+        return e
+    if isinstance(e, ast.BoolOp):
+        return ast.copy_location(ast.BoolOp(op=e.op, values=[_pointwise(cfg, v, at, depth + 1) for v in e.values]), e)
+    if isinstance(e, ast.UnaryOp) and isinstance(e.op, ast.Not):
+        return ast.copy_location(ast.UnaryOp(op=e.op, operand=_pointwise(cfg, e.operand, at, depth + 1)), e)
+    if isinstance(e, ast.Name):
+        rhs = cfg._expand_name(e, at)
+        ds = cfg.defs_of(at, e.id) if rhs is None else []
+        if len(ds) == 1 and ds[0].kind == "assign" and isinstance(ds[0].value, ast.Subscript):
+            # a local that holds one entry (`explore_now = explore[step]`), under the same condition as _expand_name: its operands are unchanged since
+            names = {x.id for x in ast.walk(ds[0].value) if isinstance(x, ast.Name)}
+            if e.id not in names and all(cfg.reaching()[at].get(nm) == cfg.reaching_out()[ds[0].node].get(nm) for nm in names):
+                rhs = ds[0].value
+        if rhs is not None:
+            new = _pointwise(cfg, rhs, at, depth + 1)
+            if ast.dump(new) != ast.dump(rhs):
+                return new
+        return e
+    if isinstance(e, ast.Subscript) and not isinstance(e.slice, (ast.Slice, ast.Tuple)):
+        v = strip_wrappers(e.value)
+        if isinstance(v, ast.Name):
+            ds = cfg.defs_of(at, v.id)
+            rhs = None
+            if len(ds) == 1 and ds[0].kind == "assign" and isinstance(ds[0].value, ast.AST):
+                rhs = strip_wrappers(ds[0].value)
+            elif len(ds) == 1 and ds[0].kind == "unpack" and isinstance(ds[0].value, ast.Tuple) and len(ds[0].path) == 1 and isinstance(ds[0].path[0], int) and ds[0].path[0] < len(ds[0].value.elts):
+                rhs = strip_wrappers(ds[0].value.elts[ds[0].path[0]])
+            if isinstance(rhs, ast.Compare):
+                names = {x.id for x in ast.walk(rhs) if isinstance(x, ast.Name)}
+                rd, out = cfg.reaching(), cfg.reaching_out()[ds[0].node]
+                if v.id not in names and all(rd[at].get(nm) == out.get(nm) for nm in names):
+                    v = rhs
+        if isinstance(v, ast.Compare) and len(v.ops) == 1:
+            def at_index(x):
+                return ast.Subscript(value=x, slice=e.slice, ctx=ast.Load())
+            return ast.fix_missing_locations(ast.copy_location(ast.Compare(left=at_index(v.left), ops=v.ops, comparators=[at_index(v.comparators[0])]), e))
+    return e
+
+
+def dqn_loop(ck, repo, nfp, lq, has_ls):
+    """Per path through the action selection, the executed action is the space sample iff (step < learning_starts or roll[step] < epsilon[step]) and the
+    greedy action of the online network on the current observation otherwise."""
+    from ..sympath import enumerate_paths, PathEval
+    from ..sem import selector_table
+    from ..specialise import load_signatures
+    L = find_env_loop(repo, lq)
+    cfg, mi, fn = L.cfg, L.mi, L.fn
+    pn = param_names(fn)
+    recorded = load_signatures().get(lq) or []
+
+    def role(name):
+        """Parameter in the role the recorded signature names: by that name while it exists, else by its recorded position."""
+        if name in pn:
+            return name
+        if name in recorded and recorded.index(name) < len(pn):
+            return pn[recorded.index(name)]
+        raise AnalysisError(f"{lq}: parameter `{name}` of the recorded signature not found (anchor vanished)")
+    total, qnet = role("total_timesteps"), role("q_net")
+    hdr = cfg.nodes[L.outer_header].ast
+    if isinstance(hdr, ast.For) and isinstance(hdr.target, ast.Name):
+        cvar = hdr.target.id
+    else:
+        cands = set()
+        for c in ast.walk(hdr.test) if isinstance(hdr, ast.While) else []:
+            if isinstance(c, ast.Compare) and len(c.ops) == 1:
+                sides = [c.left, c.comparators[0]]
+                if any(isinstance(x, ast.Name) and x.id == total for x in sides):
+                    cands |= {x.id for x in sides if isinstance(x, ast.Name) and x.id != total}
+        if len(cands) != 1:
+            raise AnalysisError(f"{lq}: the step counter of the loop is not read from its header (unrecognised form)")
+        cvar = cands.pop()
+    aexpr = arg_of(L.step_call, 0, "action")
+    ck.need(aexpr is not None, f"{lq}: env.step without an action argument (unrecognised form)")
+    envl = {p: _role(p) for p in pn}
+    envl[cvar] = _role(cvar)
+    body = cfg.loop_body_nodes(L.outer_header)
+    # the current observation: what is stored as the transition's observation / the local that carries next_obs into the next iteration
+    cur = set()
+    for n in cfg.nodes:
+        if n.ast is not None and n.kind == "stmt" and n.id in body:
+            for c in ast.walk(n.ast):
+                if isinstance(c, ast.Call) and isinstance(c.func, ast.Attribute) and c.func.attr == "add_sample":
+                    cur |= {dotted(k.value) for k in c.keywords if k.arg == "observation" and dotted(k.value)}
+            if isinstance(n.ast, ast.Assign) and len(n.ast.targets) == 1 and isinstance(n.ast.targets[0], ast.Name) and isinstance(n.ast.value, ast.Name) and n.ast.value.id == L.pos.get(0):
+                cur.add(n.ast.targets[0].id)
+    ck.need(cur, f"{lq}: the local holding the current observation is not identified (unrecognised form)")
+
+    def pre(p):
+        """A local bound once before the loop (an alias `online = q_net`) is read through to its value."""
+        a = p.single_atom()
+        if a is not None and a.isidentifier() and a not in pn and a != cvar:
+            ds = cfg.defs_of(L.outer_header, a)
+            if len(ds) == 1 and ds[0].node not in body:
+                return nfp.poly(ast.Name(id=a, ctx=ast.Load()), Scope(cfg, mi, envl, lq), L.outer_header)
+        return p
+
+    def greedy_ok(m, pe, a):
+        """greedy_policy(<online net>, <current observation>); a readable other network / observation is the evidence of a violation."""
+        args = [pre(x) for x in m.get("args", [])]
+        if m.get("kws") or len(args) != 2 or any(_unread(x) for x in args):
+            raise AnalysisError(f"{lq}: arguments of `{a[:80]}` are not read (unrecognised idiom)")
+        cur_now = set(cur) | {pe.env[c_].canon() for c_ in cur if c_ in pe.env}
+        ok_net, ok_obs = args[0] == _role(qnet), args[1].canon() in cur_now
+        a0 = args[0].single_atom() or ""
+        if not ok_net and (a0.isidentifier() and a0 not in pn):
+            raise AnalysisError(f"{lq}: network `{a0}` handed to greedy_policy is a local this rule does not read back to a parameter (unrecognised idiom)")
+        if not ok_obs and args[1].single_atom() not in [v_ for v_ in L.pos.values() if v_]:
+            # evidence of acting on another observation: a result position of env.step (next_obs, ...); anything else is not read
+            raise AnalysisError(f"{lq}: observation `{args[1].canon()[:60]}` handed to greedy_policy is not read back to the current observation (unrecognised idiom)")
+        return ok_net and ok_obs
+
+    def classify(v, pe):
+        a = v.canon()
+        m = nfp.meta.get(v.single_atom() or "", {}) if v.elems is None else {}
+        if m.get("fn", "").endswith(".sample") and not m.get("args") and not m.get("kws"):
+            # <env>.action_space.sample() of the environment the routine was given; locals bound once before the loop (space = env.action_space) are read
+            # through; another owner of the space (env.unwrapped, ...) is a known other provenance
+            space = m["fn"][:-len(".sample")]
+            if space.isidentifier() and space not in pn:
+                space = pre(Poly.atom(space)).canon()
+            if space.endswith(".action_space"):
+                owner = space[:-len(".action_space")]
+                if owner.isidentifier() and owner not in pn:
+                    owner = pre(Poly.atom(owner)).canon()
+                    if owner != L.env:
+                        raise AnalysisError(f"{lq}: owner of the sampled action space `{a[:60]}` is not read (unrecognised idiom)")
+                return "random", a, owner == L.env
+        if _fn(m) == "greedy_policy":
+            return "greedy", a, greedy_ok(m, pe, a)
+        # a composite value: a greedy_policy call on another network / observation nested in it is evidence; otherwise it is not read
+        for k, mk in list(nfp.meta.items()):
+            if _fn(mk) == "greedy_policy" and k in a and not greedy_ok(mk, pe, k):
+                return "greedy", a, False
+        raise AnalysisError(f"{lq}: executed action `{a[:80]}` is neither the space sample nor greedy_policy(...) (unrecognised idiom)")
+
+    def split(pth, pe, expr, at):
+        """[(extra conditions, value)]: a conditional expression contributes its test as a branch condition; copies through locals are followed."""
+        expr = strip_wrappers(expr)
+        if isinstance(expr, ast.IfExp):
+            return [(c_ + [(expr.test, at, lab)], v) for lab, arm in ((True, expr.body), (False, expr.orelse)) for c_, v in split(pth, pe, arm, at)]
+        if isinstance(expr, ast.Name):
+            for nid, tgt, _val in reversed(pe.log):
+                if tgt == expr.id:
+                    st = cfg.nodes[nid].ast
+                    sv = strip_wrappers(st.value) if isinstance(st, ast.Assign) and len(st.targets) == 1 and isinstance(st.targets[0], ast.Name) else None
+                    if isinstance(sv, (ast.IfExp, ast.Name)):
+                        k = next(i for i, (x, _) in enumerate(pth) if x == nid)
+                        return split(pth, PathEval(nfp, cfg, mi, lq, envl).run(pth[:k]), sv, nid)
+                    break
+        return [([], pe.ev(expr))]
+
+    # only branches that (transitively) decide what the action variable holds take part (logging / episode bookkeeping do not select the action)
+    rel = {x.id for x in ast.walk(aexpr) if isinstance(x, ast.Name)}
+    keep, grew = set(), True
+    while grew:
+        grew = False
         for n in cfg.nodes:
-            if n.ast is not None and n.kind == "stmt":
-                for c in ast.walk(n.ast):
-                    if isinstance(c, ast.Call) and isinstance(c.func, ast.Attribute) and c.func.attr == "add_sample":
-                        for k in c.keywords:
-                            if k.arg == "observation":
-                                stored = dotted(k.value)
-        items, seen_kinds = [], {}
-        try:
-            paths = enumerate_paths(cfg, L.outer_header, {L.step_node}, first_label=True, max_paths=3000)
-        except RuntimeError:
-            raise AnalysisError(f"{lq}: too many paths from the loop header to env.step")
-        for pth in paths:
-            pe = PathEval(nfp, cfg, mi, lq, envl).run(pth[:-1])
-            av = pe.env.get(act.id)
-            if av is None:
-                raise AnalysisError(f"{lq}: the action has no value on a path to env.step")
-            a = av.canon()
-            for w_ in ("int(", "asarray(", "array("):
-                pass
-            if a.endswith("action_space.sample()"):
-                kind = "random"
-                seen_kinds.setdefault(kind, set()).add((a, a == f"{L.env}.action_space.sample()"))
-            elif "greedy_policy(" in a:
-                kind = "greedy"
-                m_ = nfp.meta.get(a, {})
-                args_ = [x.canon() for x in m_.get("args", [])]
-                okg = len(args_) == 2 and args_[0] == "q_net" and (stored is None or args_[1] in (stored, pe.env.get(stored, Poly.atom(stored)).canon()))
-                seen_kinds.setdefault(kind, set()).add((a, okg))
-            else:
-                raise AnalysisError(f"{lq}: executed action `{a[:80]}` is neither the space sample nor greedy_policy(...) (unrecognised idiom)")
-            conds = [(cfg.nodes[nid].ast.test, nid, lab) for nid, lab in pth[:-1] if cfg.nodes[nid].kind == "test" and lab in (True, False) and isinstance(cfg.nodes[nid].ast, ast.If)]
-            # only conditions that involve the exploration quantities take part (logging / episode bookkeeping do not select the action)
-            conds = [c_ for c_ in conds if any(w in ast.unparse(c_[0]) for w in ("epsilon", "learning_starts", "explor", "random", "warm")) or any(isinstance(x, ast.Name) and cfg._expand_name(x, c_[1]) is not None for x in ast.walk(c_[0]))]
-            items.append((conds, kind))
-        pred = parse_expr(f"({cvar} < learning_starts) or (epsilon_rolls[{cvar}] < epsilon[{cvar}])" if has_ls else f"epsilon_rolls[{cvar}] < epsilon[{cvar}]")
-        first_test = next((nid for conds_, _ in items for _, nid, _ in conds_), None)
-        ck.need(first_test is not None, f"{lq}: the executed action does not depend on any exploration test (unrecognised idiom)")
-        verdict, info = selector_table(nfp, mi, cfg, items, pred, "random", "greedy", opaque=set(param_names(L.fn)) | {cvar}, pred_at=first_test)
-        if verdict is None:
-            raise AnalysisError(f"{lq}: action selection not comparable with the documented exploration test: {info}")
-        ck.ob("R4-greedy", lq, "exploration-test", verdict, f"random iff {ast.unparse(pred)} (truth table over {len(items)} path(s))", "" if verdict else f"documented: random action iff {ast.unparse(pred)}; differs in the world {info}", loc(mi, L.fn))
-        okr = "random" in seen_kinds and all(o for _, o in seen_kinds["random"])
-        ck.ob("R4-greedy", lq, "random-arm", okr, f"explore -> {sorted(a_ for a_, _ in seen_kinds.get('random', []))[:1]}", "" if okr else "exploring arm must sample the seeded action space of the environment", loc(mi, L.fn))
-        okg = "greedy" in seen_kinds and all(o for _, o in seen_kinds["greedy"])
-        ck.ob("R4-greedy", lq, "greedy-arm", okg, f"exploit -> {sorted(a_[:70] for a_, _ in seen_kinds.get('greedy', []))[:1]}", "" if okg else "the non-exploring arm must be greedy_policy(<online q_net>, <current observation>): acting on the target copy or another observation is not acting on the current estimates", loc(mi, L.fn))
-        # schedule
-        eps = [n for n in cfg.nodes if n.kind == "stmt" and isinstance(n.ast, ast.Assign) and dotted(n.ast.targets[0]) == "epsilon"]
-        ok = len(eps) == 1 and nfp.poly(eps[0].ast.value, Scope(None, mi, {}, lq), None).canon() in ("rl_blox.blox.schedules.linear_schedule(total_timesteps)", "linear_schedule(total_timesteps)")
-        ck.ob("R4-greedy", lq, "epsilon-schedule", ok, f"epsilon = {ast.unparse(eps[0].ast.value) if eps else None}", "" if ok else "epsilon must be the documented linear schedule (1.0 -> 0.1 over the first 10%) over total_timesteps", loc(mi, eps[0].ast if eps else L.fn))
-        rolls = [n for n in cfg.nodes if n.kind == "stmt" and isinstance(n.ast, ast.Assign) and dotted(n.ast.targets[0]) == "epsilon_rolls"]
-        if len(rolls) != 1:
-            raise AnalysisError(f"{lq}: the exploration rolls are not a single assignment (unrecognised form)")
-        rp_ = nfp.poly(rolls[0].ast.value, Scope(None, mi, {}, lq), None)       # value-transparent wrappers (asarray, ...) are stripped
-        rm_ = nfp.meta.get(rp_.single_atom() or "", {})
-        rfn_ = rm_.get("fn", "").split(".")[-1]
-        rshape_ = rm_.get("args", [None, None])[1].canon() if len(rm_.get("args", [])) >= 2 else (rm_.get("kws", {}).get("shape").canon() if rm_.get("kws", {}).get("shape") is not None else None)
-        ok = rfn_ == "uniform" and rshape_ in ("(total_timesteps)", "total_timesteps") and not (set(rm_.get("kws", {})) - {"shape", "dtype"})
-        if not ok and rfn_ not in ("uniform", "normal", "randint", "bernoulli", "truncated_normal", "exponential", "laplace", "integers", "random", "rand"):
-            raise AnalysisError(f"{lq}: exploration rolls `{rp_.canon()[:80]}` are not a recognised random draw (unrecognised form)")
-        ck.ob("R4-greedy", lq, "rolls-uniform", ok, f"epsilon_rolls = {ast.unparse(rolls[0].ast.value) if rolls else None}", "" if ok else "rolls must be U[0,1) draws, one per step", loc(mi, rolls[0].ast if rolls else L.fn))
-    # defaults of the schedule
-    fn = repo.func("rl_blox.blox.schedules.linear_schedule")
-    dflt = {}
-    for a, d in list(zip(fn.args.args[-len(fn.args.defaults):], fn.args.defaults)) + [(a_, d_) for a_, d_ in zip(fn.args.kwonlyargs, fn.args.kw_defaults) if d_ is not None]:
-        try:
-            dflt[a.arg] = ast.literal_eval(d)
-        except Exception:
-            dflt[a.arg] = ast.unparse(d)
-    documented = {"start": 1.0, "end": 0.1, "fraction": 0.1}
-    if not set(documented) <= set(dflt):
-        raise AnalysisError(f"rl_blox.blox.schedules.linear_schedule: parameters {sorted(set(documented) - set(dflt))} have no defaults any more (anchor vanished)")
-    ok = all(dflt[k_] == v_ for k_, v_ in documented.items())
-    dflt = {k_: dflt[k_] for k_ in documented}
-    ck.ob("R4-greedy", "rl_blox.blox.schedules.linear_schedule", "defaults", ok, f"{dflt}", "" if ok else "documented exploration schedule is 1.0 -> 0.1 over the first 10% of the steps", loc(fn._module, fn))
+            if n.kind == "test" and isinstance(n.ast, ast.If) and n.id not in keep and n.id in body:
+                stores = {x.id for st in n.ast.body + n.ast.orelse for x in ast.walk(st) if isinstance(x, ast.Name) and isinstance(x.ctx, ast.Store)}
+                if stores & rel:
+                    keep.add(n.id)
+                    rel |= {x.id for x in ast.walk(n.ast.test) if isinstance(x, ast.Name)}
+                    grew = True
+            elif n.kind == "stmt" and n.id in body and isinstance(n.ast, (ast.Assign, ast.AnnAssign, ast.AugAssign)):
+                names = {(x.id, type(x.ctx)) for x in ast.walk(n.ast) if isinstance(x, ast.Name)}
+                if {i_ for i_, c_ in names if c_ is ast.Store} & rel and not {i_ for i_, c_ in names if c_ is ast.Load} <= rel:
+                    rel |= {i_ for i_, c_ in names if c_ is ast.Load}      # what is copied / converted into the action variable
+                    grew = True
+    items, seen_kinds = [], {}
+    try:
+        paths = enumerate_paths(cfg, L.outer_header, {L.step_node}, first_label=True, max_paths=3000)
+    except RuntimeError:
+        raise AnalysisError(f"{lq}: too many paths from the loop header to env.step")
+    for pth in paths:
+        pe = PathEval(nfp, cfg, mi, lq, envl).run(pth[:-1])
+        conds = [(cfg.nodes[nid].ast.test, nid, lab) for nid, lab in pth[:-1] if nid in keep and lab in (True, False)]
+        for extra, v in split(pth, pe, aexpr, L.step_node):
+            kind, a, ok_ = classify(v, pe)
+            seen_kinds.setdefault(kind, set()).add((a, ok_))
+            items.append(([(_pointwise(cfg, t_, nid, 0), nid, lab) for t_, nid, lab in conds + extra], kind))
+    # the schedule and the rolls: the locals bound to linear_schedule(...) and to the random draw, whatever they are called
+    sched, draws = [], []
+    for n in cfg.nodes:
+        if n.kind == "stmt" and isinstance(n.ast, (ast.Assign, ast.AnnAssign)) and n.ast.value is not None and isinstance(strip_wrappers(n.ast.value), ast.Call):
+            tg = n.ast.targets[0] if isinstance(n.ast, ast.Assign) and len(n.ast.targets) == 1 else getattr(n.ast, "target", None)
+            if isinstance(tg, ast.Name):
+                try:
+                    vp = nfp.poly(n.ast.value, Scope(cfg, mi, envl, lq), n.id)
+                except Exception:
+                    continue
+                mv = nfp.meta.get(vp.single_atom() or "", {}) if vp.elems is None else {}
+                if _fn(mv) == "linear_schedule" and mv["fn"].startswith("rl_blox."):
+                    sched.append((tg.id, n, vp, mv))
+                elif _fn(mv) in RANDOM_DRAWS and mv["fn"] == _fn(mv):
+                    draws.append((tg.id, n, vp, mv))
+    # ... of those, the ones the selection tests read (directly or through locals): a second schedule (PER's beta) / another draw is not the exploration's
+    used, todo = set(), [(x.id, nid) for conds_, _ in items for t_, nid, _ in conds_ for x in ast.walk(t_) if isinstance(x, ast.Name)]
+    while todo:
+        nm_, at_ = todo.pop()
+        if (nm_, at_) in used or len(used) > 400:
+            continue
+        used.add((nm_, at_))
+        for d_ in cfg.defs_of(at_, nm_):
+            if d_.kind in ("assign", "unpack", "aug", "walrus") and isinstance(getattr(d_, "value", None), ast.AST):
+                todo += [(x.id, d_.node) for x in ast.walk(d_.value) if isinstance(x, ast.Name)]
+    used = {nm_ for nm_, _ in used}
+    sched, draws = [s_ for s_ in sched if s_[0] in used], [s_ for s_ in draws if s_[0] in used]
+    if len(sched) != 1 or len(draws) != 1:
+        raise AnalysisError(f"{lq}: {len(sched)} locals bound to linear_schedule(...) and {len(draws)} to a random draw: the exploration schedule / rolls are not identified (unrecognised form)")
+    (eps, eps_n, eps_p, eps_m), (rolls, rolls_n, rolls_p, rolls_m) = sched[0], draws[0]
+    pred = parse_expr(f"({cvar} < {role('learning_starts')}) or ({rolls}[{cvar}] < {eps}[{cvar}])" if has_ls else f"{rolls}[{cvar}] < {eps}[{cvar}]")
+    first_test = next((nid for conds_, _ in items for _, nid, _ in conds_), None)
+    ck.need(first_test is not None, f"{lq}: the executed action does not depend on any exploration test (unrecognised idiom)")
+    verdict, info = selector_table(nfp, mi, cfg, items, pred, "random", "greedy", opaque=set(pn) | {cvar}, pred_at=first_test)
+    if verdict is None:
+        raise AnalysisError(f"{lq}: action selection not comparable with the documented exploration test: {info}")
+    ck.ob("R4-greedy", lq, "exploration-test", verdict, f"random iff {ast.unparse(pred)} (truth table over {len(items)} path(s))", "" if verdict else f"documented: random action iff {ast.unparse(pred)}; differs in the world {info}", loc(mi, fn))
+    okr = "random" in seen_kinds and all(o for _, o in seen_kinds["random"])
+    ck.ob("R4-greedy", lq, "random-arm", okr, f"explore -> {sorted(a_ for a_, _ in seen_kinds.get('random', []))[:1]}", "" if okr else "exploring arm must sample the seeded action space of the environment", loc(mi, fn))
+    okg = "greedy" in seen_kinds and all(o for _, o in seen_kinds["greedy"])
+    ck.ob("R4-greedy", lq, "greedy-arm", okg, f"exploit -> {sorted(a_[:70] for a_, _ in seen_kinds.get('greedy', []))[:1]}", "" if okg else "the non-exploring arm must be greedy_policy(<online q_net>, <current observation>): acting on the target copy or another observation is not acting on the current estimates", loc(mi, fn))
+    # schedule: linear_schedule(total_timesteps) with the documented defaults (arguments that repeat the defaults are dropped by the normal form)
+    T = _role(total)
+    if _unread(eps_p) or eps_m.get("kws", {}).get("**") is not None:
+        raise AnalysisError(f"{lq}: arguments of the schedule `{eps_p.canon()[:80]}` are not read (unrecognised form)")
+    ok = eps_m["args"] == [T] and not eps_m["kws"]
+    ck.ob("R4-greedy", lq, "epsilon-schedule", ok, f"{eps} = {eps_p.canon()[:100]}", "" if ok else "epsilon must be the documented linear schedule (1.0 -> 0.1 over the first 10%) over total_timesteps", loc(mi, eps_n.ast))
+    # rolls: U[0,1), one per step
+    args, kws = list(rolls_m["args"]), dict(rolls_m["kws"])
+    if _unread(rolls_p) or "**" in kws:
+        raise AnalysisError(f"{lq}: exploration rolls `{rolls_p.canon()[:80]}` are not read (unrecognised form)")
+    ok = _fn(rolls_m) == "uniform"      # another distribution is a known other provenance
+    if ok:
+        sig = ["key", "shape", "dtype", "minval", "maxval"]
+        b = {**kws, **dict(zip(sig, args))}
+        if set(b) - set(sig) or "shape" not in b:
+            raise AnalysisError(f"{lq}: arguments of the exploration rolls `{rolls_p.canon()[:80]}` (unrecognised form)")
+        if b["shape"].elems is not None and len(b["shape"].elems) != 1:
+            raise AnalysisError(f"{lq}: exploration rolls of shape `{b['shape'].canon()[:60]}`: reshapes are value-transparent in the normal form, the layout is not tracked (unrecognised form)")
+        shp = b["shape"].elems[0] if b["shape"].elems is not None else b["shape"]
+        for nm_, dv in (("minval", 0), ("maxval", 1)):
+            if nm_ in b and not b[nm_].is_const():
+                raise AnalysisError(f"{lq}: bound {nm_}=`{b[nm_].canon()[:40]}` of the exploration rolls is not a constant (unrecognised form)")
+            ok = ok and (nm_ not in b or b[nm_].const_value() == dv)
+        ok = ok and (shp == T or _differs(lq, "the number of exploration rolls", shp, T))
+    ck.ob("R4-greedy", lq, "rolls-uniform", ok, f"{rolls} = {rolls_p.canon()[:100]}", "" if ok else "rolls must be U[0,1) draws, one per step", loc(mi, rolls_n.ast))
+
+
+def schedule_defaults(ck, repo, nf):
+    from ..specialise import load_signatures
+    q = "rl_blox.blox.schedules.linear_schedule"
+    fn = repo.func(q)
+    pn = param_names(fn)
+    recorded = load_signatures().get(q) or ["total_timesteps", "start", "end", "fraction"]
+    a = fn.args
+    pos = a.posonlyargs + a.args
+    dexpr = dict(zip([x.arg for x in pos[len(pos) - len(a.defaults):]], a.defaults)) if a.defaults else {}
+    dexpr.update({x.arg: d for x, d in zip(a.kwonlyargs, a.kw_defaults) if d is not None})
+    documented = {"start": Fraction(1), "end": Fraction(1, 10), "fraction": Fraction(1, 10)}
+    got = {}
+    for name in documented:
+        cur = name if name in pn else (pn[recorded.index(name)] if name in recorded and recorded.index(name) < len(pn) else None)
+        if cur is None or cur not in dexpr:
+            raise AnalysisError(f"{q}: parameter `{name}` has no default any more (anchor vanished)")
+        v = nf.poly(dexpr[cur], Scope(None, fn._module, {}, q), None)      # module-level constants are read through
+        if not v.is_const():
+            raise AnalysisError(f"{q}: default of `{cur}` = `{v.canon()[:60]}` is not a constant (unrecognised form)")
+        got[name] = v.const_value()
+    ok = got == documented
+    ck.ob("R4-greedy", q, "defaults", ok, f"{ {k_: float(v_) for k_, v_ in got.items()} }", "" if ok else "documented exploration schedule is 1.0 -> 0.1 over the first 10% of the steps", loc(fn._module, fn))
+
+
+def _transparent_decorators(repo, mi, fn) -> bool:
+    """Decorators that do not change what a call returns (jit and friends)."""
+    for d in fn.decorator_list:
+        f = d.func if isinstance(d, ast.Call) else d
+        r = repo.resolve_expr(mi, f) or ""
+        if r == "functools.partial" and isinstance(d, ast.Call) and d.args:
+            r = repo.resolve_expr(mi, d.args[0]) or ""
+        if r not in ("jax.jit", "flax.nnx.jit", "jax.checkpoint", "flax.nnx.remat"):
+            return False
+    return True
 
 
 def arity_scan(ck, repo):
-    """R2 for the whole package: `a, b = f(x)` where f is a repo function / method with a known single-array return."""
+    """R2 for the whole package: `a, b = f(x)` where every return of the repo function f is a tuple display of another length."""
     n = 0
     for qual, fn, mi in repo.all_functions():
+        local = {x.id for x in ast.walk(fn) if isinstance(x, ast.Name) and isinstance(x.ctx, ast.Store)} | {x.name for x in ast.walk(fn) if isinstance(x, (ast.FunctionDef, ast.ClassDef)) and x is not fn} | set(param_names(fn))
         for st in ast.walk(fn):
-            if isinstance(st, ast.Assign) and isinstance(st.targets[0], ast.Tuple) and isinstance(st.value, ast.Call) and isinstance(st.value.func, ast.Name):
+            if isinstance(st, ast.Assign) and isinstance(st.targets[0], ast.Tuple) and isinstance(st.value, ast.Call) and isinstance(st.value.func, ast.Name) and st.value.func.id not in local:
                 r = repo.resolve_name(mi, st.value.func.id)
                 if r and r.startswith("rl_blox.") and repo.has(r):
                     try:
                         callee = repo.func(r)
                     except Exception:
                         continue
-                    ar = _return_arity(callee)
+                    if not _transparent_decorators(repo, callee._module, callee) or any(isinstance(x, (ast.Yield, ast.YieldFrom)) for x in _own(callee, (ast.Yield, ast.YieldFrom))):
+                        continue
+                    ar = {len(x.value.elts) if isinstance(x.value, ast.Tuple) and not any(isinstance(e, ast.Starred) for e in x.value.elts) else 1 for x in _own(callee, ast.Return) if x.value is not None}
                     n += 1
-                    if ar and all(isinstance(x, int) for x in ar) and 1 not in ar:
+                    if ar and 1 not in ar:
                         k = len(st.targets[0].elts)
                         if not any(isinstance(e, ast.Starred) for e in st.targets[0].elts):
                             ok = k in ar
@@ -391,13 +886,30 @@ def arity_scan(ck, repo):
     ck.count("unpack-sites", n)
 
 
+def _group(ck, fn, *args):
+    """One independent rule group: an unrecognised form (AnalysisError) or an internal error of the reading leaves this group undecided, the others still run."""
+    try:
+        return ck.guard(fn, *args)
+    except AnalysisError:
+        raise
+    except Exception as e:
+        ck.incomplete.append(f"{getattr(fn, '__name__', fn)}{[a for a in args if isinstance(a, str)]}: not judged ({type(e).__name__}: {e})")
+
+
 def run(ck, repo: Repo, tier: str):
-    nf = NF(repo, inline_depth=2, inline_calls=True)
-    ck.guard(gaussian_head, ck, repo, nf, PH + "GaussianTanhPolicy", True)
-    ck.guard(gaussian_head, ck, repo, nf, PH + "GaussianPolicy", False)
-    ck.guard(softmax_head, ck, repo, nf)
-    ck.guard(greedy_rules, ck, repo, nf)
-    ck.guard(arity_scan, ck, repo)
+    # heads: broadcast_to(x, <shape of the other operand>) is x under the arithmetic it is used in (value-transparent like asarray)
+    nf = NF(repo, inline_depth=4, inline_calls=True, strip=set(STRIP) | {"broadcast_to"})
+    nfp = NF(repo, inline_depth=1, inline_calls=False)
+    _group(ck, gaussian_head, ck, repo, nf, PH + "GaussianTanhPolicy", True)
+    _group(ck, gaussian_head, ck, repo, nf, PH + "GaussianPolicy", False)
+    _group(ck, softmax_head, ck, repo, nf)
+    _group(ck, greedy_tabular, ck, repo, NF(repo, inline_depth=2, inline_calls=True))
+    _group(ck, greedy_network, ck, repo, NF(repo, inline_depth=2, inline_calls=True))
+    _group(ck, epsilon_greedy_tabular, ck, repo, nfp)
+    for lq, has_ls in (("rl_blox.algorithm.dqn.train_dqn", False), ("rl_blox.algorithm.nature_dqn.train_nature_dqn", True), ("rl_blox.algorithm.ddqn.train_ddqn", True), ("rl_blox.algorithm.per.train_ddqn_per", True)):
+        _group(ck, dqn_loop, ck, repo, nfp, lq, has_ls)
+    _group(ck, schedule_defaults, ck, repo, nfp)
+    _group(ck, arity_scan, ck, repo)
     subs = repo.subclasses(PH + "StochasticPolicyBase")
     ck.floor("stochastic-heads", len(subs), 3)
     registered = {PH + "GaussianTanhPolicy", PH + "GaussianPolicy", PH + "SoftmaxPolicy"}
@@ -436,10 +948,71 @@ _LP = "        return dist.MultivariateNormalDiag(loc=mean, scale_diag=std).log_
 MUTANTS += [
     {"id": "c13-manual-density-constant-outside-sum", "file": _H, "rule": "R3", "all": True, "edits": [("\n\nclass GaussianTanhPolicy(StochasticPolicyBase):", _HELPER_BAD), (_LP, "        return _diag_gaussian_log_prob(mean, std, action)")]},
 ]
+_VP, _QP, _DQN = "rl_blox/blox/value_policy.py", "rl_blox/blox/q_policy.py", "rl_blox/algorithm/dqn.py"
+_IF_DQN = "        if epsilon_rolls[step] < epsilon[step]:\n            action = env.action_space.sample()\n        else:\n            action = greedy_policy(q_net, obs)\n"
+_ROLLS = "    epsilon_rolls = jax.random.uniform(subkey, (total_timesteps,))\n"
+_CHOICE = "        return random.choice(subkey, jnp.arange(len(q_table[observation])))"
+_CAT_LP = "        return dist.Categorical(logits=self.logits(observation)).log_prob(\n            action\n        )"
+_TANH_PARAMS = "\n\nfrom typing import NamedTuple\n\n\nclass GaussParams(NamedTuple):\n    mean: jnp.ndarray\n    std: jnp.ndarray\n\n\nclass GaussianTanhPolicy(StochasticPolicyBase):"
+# violation paths that read the construct by meaning (bound by signature / role atoms): each keeps a mutant
+MUTANTS += [
+    {"id": "c13-softmax-logp-of-observation", "file": _H, "rule": "R3", "find": _CAT_LP, "replace": _CAT_LP.replace("            action\n", "            observation\n")},
+    {"id": "c13-gauss-sample-fixed-seed", "file": _H, "rule": "R3", "find": "        return dist.MultivariateNormalDiag(loc=mean, scale_diag=std).sample(\n            seed=key,", "replace": "        return dist.MultivariateNormalDiag(loc=mean, scale_diag=std).sample(\n            seed=jax.random.PRNGKey(0),"},
+    {"id": "c13-tanh-sample-fixed-key", "file": _H, "rule": "R3", "find": "        return jax.random.normal(key, mean.shape) * std + mean", "replace": "        return jax.random.normal(jax.random.PRNGKey(0), mean.shape) * std + mean"},
+    {"id": "c13-softmax-sample-fixed-seed", "file": _H, "rule": "R3", "find": "        return dist.Categorical(logits=self.logits(observation)).sample(\n            seed=key,", "replace": "        return dist.Categorical(logits=self.logits(observation)).sample(\n            seed=jax.random.PRNGKey(0),"},
+    {"id": "c13-tanh-call-no-half", "file": _H, "rule": "R1", "nth": 0, "find": "        log_std = jnp.clip(0.5 * log_var, -20.0, 2.0)", "replace": "        log_std = jnp.clip(log_var, -20.0, 2.0)"},
+    {"id": "c13-gauss-entropy-mvn", "file": _H, "rule": "R3", "nth": 1, "find": "        return dist.Normal(loc=mean, scale=std).entropy()", "replace": "        return dist.MultivariateNormalDiag(loc=mean, scale_diag=std).entropy()"},
+    {"id": "c13-gauss-logp-mean-is-log-var", "file": _H, "rule": "R1", "nth": 1, "find": _LP, "replace": _LP.replace("loc=mean", "loc=log_var")},
+    {"id": "c13-gauss-entropy-manual-missing-half", "file": _H, "rule": "R3", "nth": 1, "find": "        return dist.Normal(loc=mean, scale=std).entropy()", "replace": "        return 0.5 * jnp.log(2.0 * jnp.pi) + jnp.log(std)"},
+    {"id": "c13-softmax-probs-param", "file": _H, "rule": "R3", "find": "        return dist.Categorical(logits=self.logits(observation)).log_prob(", "replace": "        return dist.Categorical(probs=self(observation)).log_prob("},
+    {"id": "c13-softmax-logits-scaled", "file": _H, "rule": "R3", "find": "        return self.net(observation)\n", "replace": "        return 2.0 * self.net(observation)\n"},
+    {"id": "c13-softmax-axis0", "file": _H, "rule": "R3", "find": "        return nnx.softmax(self.logits(observation))", "replace": "        return nnx.softmax(self.logits(observation), axis=0)", "accept_error": True},
+    {"id": "c13-greedy-whole-table", "file": _VP, "rule": "R4", "find": "    return jnp.argmax(q_table[observation])", "replace": "    return jnp.argmax(q_table)"},
+    {"id": "c13-qpolicy-argmin", "file": _QP, "rule": "R4", "find": "    return jnp.argmax(q_vals)", "replace": "    return jnp.argmin(q_vals)"},
+    {"id": "c13-eps-weighted-by-values", "file": _VP, "rule": "R4", "find": _CHOICE, "replace": _CHOICE[:-1] + ", p=q_table[observation] / jnp.sum(q_table[observation]))"},
+    {"id": "c13-eps-draws-a-value", "file": _VP, "rule": "R4", "find": _CHOICE, "replace": "        return random.choice(subkey, q_table[observation])"},
+    {"id": "c13-eps-never-greedy", "file": _VP, "rule": "R4", "find": "        return greedy_policy(q_table, observation)", "replace": _CHOICE},
+    {"id": "c13-dqn-rolls-normal", "file": _DQN, "rule": "R4", "find": "    epsilon_rolls = jax.random.uniform(subkey, (total_timesteps,))", "replace": "    epsilon_rolls = jax.random.normal(subkey, (total_timesteps,))"},
+    {"id": "c13-dqn-rolls-maxval", "file": _DQN, "rule": "R4", "find": "    epsilon_rolls = jax.random.uniform(subkey, (total_timesteps,))", "replace": "    epsilon_rolls = jax.random.uniform(subkey, (total_timesteps,), maxval=2.0)"},
+    {"id": "c13-dqn-unwrapped-space", "file": _DQN, "rule": "R4", "find": "            action = env.action_space.sample()", "replace": "            action = env.unwrapped.action_space.sample()"},
+    {"id": "c13-dqn-conditional-expression-flipped", "file": _DQN, "rule": "R4", "find": _IF_DQN, "replace": "        action = greedy_policy(q_net, obs) if epsilon_rolls[step] < epsilon[step] else env.action_space.sample()\n"},
+    {"id": "c13-per-tests-beta-schedule", "file": "rl_blox/algorithm/per.py", "rule": "R4", "find": "        if step < learning_starts or epsilon_rolls[step] < epsilon[step]:", "replace": "        if step < learning_starts or epsilon_rolls[step] < beta[step]:"},
+    {"id": "c13-schedule-default-end", "file": "rl_blox/blox/schedules.py", "rule": "R4", "find": "    end: float = 0.1,", "replace": "    end: float = 0.01,"},
+    {"id": "c13-dqn-vectorised-test-flipped", "file": _DQN, "rule": "R4", "all": True, "edits": [(_ROLLS, _ROLLS + "    explore = np.asarray(epsilon_rolls > epsilon)\n"), ("        if epsilon_rolls[step] < epsilon[step]:", "        if explore[step]:")]},
+    {"id": "c13-cem-update-returns-three", "file": "rl_blox/blox/cross_entropy_method.py", "rule": "R2", "find": "    return mean, var\n", "replace": "    return mean, var, elite\n"},
+]
 BENIGN = [
     {"id": "c13-b-manual-density-correct", "file": _H, "all": True, "edits": [("\n\nclass GaussianTanhPolicy(StochasticPolicyBase):", _HELPER_OK), (_LP, "        return _diag_gaussian_log_prob(mean, std, action)")]},
     {"id": "c13-b-tanh-sample-tfp", "file": _H, "find": "        return jax.random.normal(key, mean.shape) * std + mean", "replace": "        return mean + std * jax.random.normal(key, mean.shape)"},
     {"id": "c13-b-gauss-std-inline", "file": _H, "nth": 1, "find": "        log_std = jnp.clip(0.5 * log_var, -20.0, 2.0)\n        std = jnp.exp(log_std)", "replace": "        std = jnp.exp(jnp.clip(log_var * 0.5, -20.0, 2.0))"},
     {"id": "c13-b-softmax-entropy-inline", "file": _H, "find": "        logits = self.logits(observations)\n        return dist.Categorical(logits=logits).entropy()", "replace": "        return dist.Categorical(logits=self.logits(observations)).entropy()"},
     {"id": "c13-b-dqn-or-order", "file": "rl_blox/algorithm/nature_dqn.py", "find": "        if step < learning_starts or epsilon_rolls[step] < epsilon[step]:", "replace": "        if epsilon_rolls[step] < epsilon[step] or step < learning_starts:"},
+]
+# tolerance of the semantic readings (each was a false alarm of a textual reading): import alias, arguments bound by signature, values through locals /
+# wrappers / records, equivalent spellings of lengths and constants, conditional expression instead of if / else, renamed locals, module constants
+BENIGN += [
+    {"id": "c13-b-tfp-import-alias", "file": _H, "all": True, "edits": [("import tensorflow_probability.substrates.jax.distributions as dist", "import tensorflow_probability.substrates.jax.distributions as tfd"), ("dist.", "tfd.")]},
+    {"id": "c13-b-tfp-imported-names", "file": _H, "all": True, "edits": [("import tensorflow_probability.substrates.jax.distributions as dist", "from tensorflow_probability.substrates.jax.distributions import Categorical, MultivariateNormalDiag, Normal"), ("dist.", "")]},
+    {"id": "c13-b-logprob-value-keyword-asarray", "file": _H, "nth": 0, "find": _LP, "replace": _LP.replace("            action\n", "            value=jnp.asarray(action)\n")},
+    {"id": "c13-b-dist-in-local-positional", "file": _H, "nth": 1, "find": _LP, "replace": "        pi = dist.MultivariateNormalDiag(mean, std)\n        lp = pi.log_prob(value=action)\n        return lp"},
+    {"id": "c13-b-sample-seed-positional", "file": _H, "find": "        return dist.MultivariateNormalDiag(loc=mean, scale_diag=std).sample(\n            seed=key,\n            sample_shape=(),\n        )", "replace": "        return dist.MultivariateNormalDiag(loc=mean, scale_diag=std).sample((), key)"},
+    {"id": "c13-b-call-returns-local-tuple", "file": _H, "find": "        std = jnp.exp(log_std)\n        return mean, std\n", "replace": "        std = jnp.exp(log_std)\n        out = (mean, std)\n        return out\n"},
+    {"id": "c13-b-call-returns-namedtuple", "file": _H, "all": True, "edits": [("\n\nclass GaussianTanhPolicy(StochasticPolicyBase):", _TANH_PARAMS), ("        std = jnp.exp(log_std)\n        return mean, std\n", "        std = jnp.exp(log_std)\n        return GaussParams(mean=mean, std=std)\n")]},
+    {"id": "c13-b-tanh-implicit-broadcast", "file": _H, "find": "        mean = nnx.tanh(y) * jnp.broadcast_to(\n            self.action_scale.value, y.shape\n        ) + jnp.broadcast_to(self.action_bias.value, y.shape)\n        log_std", "replace": "        mean = nnx.tanh(y) * self.action_scale.value + self.action_bias.value\n        log_std"},
+    {"id": "c13-b-tanh-noise-shaped-like-std", "file": _H, "find": "        return jax.random.normal(key, mean.shape) * std + mean", "replace": "        noise = jax.random.normal(key, shape=std.shape)\n        return noise * std + mean"},
+    {"id": "c13-b-std-factor-outside-clip", "file": _H, "nth": 1, "find": "        log_std = jnp.clip(0.5 * log_var, -20.0, 2.0)\n        std = jnp.exp(log_std)", "replace": "        std = jnp.exp(0.5 * jnp.clip(log_var, -40.0, 4.0))"},
+    {"id": "c13-b-clip-bounds-module-constants", "file": _H, "all": True, "edits": [("\n\nclass DeterministicTanhPolicy(nnx.Module):", "\n\nLOG_STD_MIN = -20.0\nLOG_STD_MAX: float = 2.0\n\n\nclass DeterministicTanhPolicy(nnx.Module):"), ("jnp.clip(0.5 * log_var, -20.0, 2.0)", "jnp.clip(0.5 * log_var, LOG_STD_MIN, LOG_STD_MAX)")]},
+    {"id": "c13-b-softmax-of-net-output", "file": _H, "find": "        return nnx.softmax(self.logits(observation))", "replace": "        return jax.nn.softmax(self.net(observation), axis=-1)"},
+    {"id": "c13-b-greedy-row-local-axis", "file": _VP, "find": "    return jnp.argmax(q_table[observation])", "replace": "    row = jnp.asarray(q_table)[observation]\n    return jnp.argmax(row, axis=-1)"},
+    {"id": "c13-b-eps-count-from-shape", "file": _VP, "find": _CHOICE, "replace": "        n_actions = q_table[observation].shape[0]\n        return random.choice(subkey, jnp.arange(n_actions))"},
+    {"id": "c13-b-eps-guard-clause", "file": _VP, "find": "    if roll < epsilon:\n" + _CHOICE + "\n    else:\n        return greedy_policy(q_table, observation)", "replace": "    if roll >= epsilon:\n        return greedy_policy(q_table, observation)\n    return random.choice(subkey, jnp.arange(q_table.shape[-1]))"},
+    {"id": "c13-b-dqn-conditional-expression", "file": _DQN, "find": _IF_DQN, "replace": "        action = env.action_space.sample() if epsilon_rolls[step] < epsilon[step] else greedy_policy(q_net, obs)\n"},
+    {"id": "c13-b-dqn-locals-renamed", "file": _DQN, "all": True, "edits": [("epsilon_rolls", "rolls"), ("    epsilon = linear_schedule(total_timesteps)", "    eps_schedule = linear_schedule(total_timesteps)"), ("epsilon[step]", "eps_schedule[step]")]},
+    {"id": "c13-b-dqn-flag-alias-negated", "file": _DQN, "all": True, "edits": [("    step = global_step\n", "    step = global_step\n    online_net = q_net\n"), (_IF_DQN, "        explore = epsilon_rolls[step] < epsilon[step]\n        if not explore:\n            action = greedy_policy(online_net, np.asarray(obs))\n        else:\n            action = env.action_space.sample()\n")]},
+    {"id": "c13-b-dqn-uniform-explicit-bounds", "file": _DQN, "find": "    epsilon_rolls = jax.random.uniform(subkey, (total_timesteps,))", "replace": "    epsilon_rolls = jax.random.uniform(key=subkey, shape=(total_timesteps,), minval=0.0, maxval=1.0)"},
+    {"id": "c13-b-dqn-step-keyword-local", "file": _DQN, "find": "        next_obs, reward, terminated, truncated, info = env.step(int(action))", "replace": "        env_action = int(action)\n        next_obs, reward, terminated, truncated, info = env.step(action=env_action)"},
+    {"id": "c13-b-dqn-schedule-defaults-spelled-out", "file": _DQN, "find": "    epsilon = linear_schedule(total_timesteps)", "replace": "    epsilon = linear_schedule(total_timesteps=total_timesteps, start=1.0, end=0.1)"},
+    {"id": "c13-b-dqn-logs-epsilon", "file": _DQN, "find": _IF_DQN, "replace": _IF_DQN + "        if logger is not None and step % 100 == 0:\n            logger.record_stat(\"epsilon\", epsilon[step], step=step + 1, episode=episode)\n"},
+    {"id": "c13-b-dqn-decided-once-for-all-steps", "file": _DQN, "all": True, "edits": [(_ROLLS, _ROLLS + "    explore = np.asarray(epsilon_rolls < epsilon)\n"), ("        if epsilon_rolls[step] < epsilon[step]:", "        explore_now = explore[step]\n        if explore_now:")]},
+    {"id": "c13-b-schedule-defaults-module-constants", "file": "rl_blox/blox/schedules.py", "find": "def linear_schedule(\n    total_timesteps: int,\n    start: float = 1.0,\n    end: float = 0.1,\n    fraction: float = 0.1,", "replace": "EPS_START = 1.0\nEPS_END = 0.1\n\n\ndef linear_schedule(\n    total_timesteps: int,\n    start: float = EPS_START,\n    end: float = EPS_END,\n    fraction: float = 0.1,"},
 ]
